@@ -1,175 +1,179 @@
 """C19 -- SumGrader accepts exactly the sums equal in value to the author's.
 
-The four functions that decide *which* terms are summed and *which* error is raised
-(`perform_summation`, `evaluate_sum`, `gen_evaluations`, `SummationGraderBase.check` with its
-helpers) are small and loop-light; their syntax trees are evaluated by the checker's own bounded
-evaluator (`_c13_enum`, engine component E7d) over a finite domain chosen from the property
-statement (integer limits in [-4, 4] in both orders and as floats, +-inf, even_odd in {0,1,2},
-complex and non-integer limits, scopes with and without the summation variable, author and
-student failures, blank / missing / surplus input fields) and the outcome of every case is
-compared with the fixed table of Appendix A10.  Nothing of /repo is imported or run.
+Everything is decided from the shape of the code (normal forms, CFG order, handler contracts):
+* D1  NF + ENUM: `perform_summation` -- the range term `range(int(lower), int(upper + 1), delta)`, the sum over every
+      evaluation, the swap of reversed limits, the replacement of -inf/+inf by -/+ cutoff, SummationError for same-sign
+      infinities, and the parity step: the decision paths of the `even_odd` statement are enumerated over the complete
+      domain even_odd in {0,1,2} x parity(lower) with `lower` symbolic; CFG order swap < checks < parity < range;
+* D2  NF/ORDER/PAIR: `evaluate_sum` -- three kinds of refusals (variable in scope, complex, non-integer finite) raise
+      SummationError and dominate the summation; cutoff chosen over the complete Venn domain of {fact, factorial} in
+      the used functions; argument roles of the summation call; the summand closure binds the index only through
+      varscope[summation_var] and releases it on every normal exit;
+* D3  GUARD/ORDER/ROLE: `gen_evaluations` -- author's call guarded by a handler for (a superclass of) MITxError that
+      raises ConfigError, student's call unguarded, instructor variables deleted between the two calls and reloaded
+      before the next author's call, results stored and returned in (author, student, functions) roles;
+* D4  ORDER/NF: `SummationGraderBase.check` and helpers -- count check, blank check (MissingInput), dummy-variable
+      validation (InvalidInput) dominate check_math_response, in that order; normal forms of the helper predicates.
+Nothing of /repo is imported or executed.
 """
 import ast
 
-from ..index import AnalysisError
+from ..index import AnalysisError, walk_own, short, unparse, parent
+from ..cfg import cfg_of
 from .. import nf, lib
 from ..selftest import Mutant, Benign
-from ._c13_enum import (Interp, Model, Obj, Sym, Native, Raised, Budget, Unsupported, describe)
+from . import _c13_nfx as X
 
 ID = 'C19'
 IG = 'mitxgraders/formulagrader/integralgrader.py'
 FILES = [IG]
 
 EXPLANATION = (
-    "Bounded evaluation (E7d, the checker's own evaluator over syntax trees; nothing of /repo is imported) of the "
-    "functions that fix the meaning of a summation, compared case by case with Appendix A10: "
-    "(D1) perform_summation sums exactly the integers between the limits in either order, odd/even only when "
-    "configured, +-inf replaced by the cutoff, same-sign infinities refused with SummationError; "
-    "(D2) evaluate_sum refuses a summation variable that is already in scope, complex limits and finite "
-    "non-integer limits with SummationError before any summation, chooses the factorial cutoff exactly when "
-    "fact/factorial is used, hands config['even_odd'] on, lets the summand see the index only through "
-    "varscope[summation_var] and leaves the scope as it found it; "
-    "(D3) SumGrader.gen_evaluations evaluates the author's sum with the instructor variables and turns every "
-    "library error there into ConfigError, deletes the instructor variables before every student's sum, lets "
-    "the student's errors through unchanged and returns (author values, student values, functions used); "
-    "(D4) SummationGraderBase.check refuses a wrong number of inputs (ConfigError), blank fields (MissingInput) "
-    "and unusable dummy variables (InvalidInput) before check_math_response is reached; "
-    "validate_input_positions / transform_list_to_dict map positions as documented.")
+    "(D1) perform_summation: the index runs over range(int(lower), int(upper + 1), delta) [NF, the `+ 1` and both int() "
+    "casts included], every evaluation is summed (comprehension+sum or accumulating loop without early exit), reversed "
+    "limits are swapped, lower == -inf -> -cutoff, upper == +inf -> +cutoff, same-sign infinities raise SummationError, and "
+    "over the complete domain even_odd in {0,1,2} x parity x sign class of the (symbolic) lower limit the decision paths give "
+    "delta 1/2/2 and a new lower limit whose affine form (abstract evaluation of + - * / // int() over parity/sign classes) "
+    "is lower + 1 exactly when the parity is the wrong one and lower otherwise; "
+    "a clamp max/min in place of the infinity tests is recognised as truncating finite limits; CFG order: swap before the infinity "
+    "checks and the parity step, infinity replacement before the parity step, parity step before the range; "
+    "(D2) evaluate_sum: `summation_var in varscope`, complex limits and finite non-integer limits each raise "
+    "SummationError on a test that dominates the summation; the cutoff is infty_val_fact exactly on the Venn regions "
+    "where fact or factorial is among the used functions; perform_summation receives (closure, limits, "
+    "config['even_odd'], cutoff); the closure stores the index into varscope[summation_var], evaluates the summand "
+    "with (varscope, funcscope, self.suffixes), returns the value and deletes the index on every normal exit; "
+    "(D3) SumGrader.gen_evaluations: the author's evaluate_sum call sits in a try whose handler covers MITxError and "
+    "raises ConfigError on every path, the student's call is outside it; every path from the author's call to the "
+    "student's call deletes the instructor variables from the scope both calls use, every path from a student's call "
+    "to the next author's call reloads the sample; values are appended and returned in (author, student, used "
+    "functions) roles; (D4) SummationGraderBase.check: structure_and_validate_input (count check -> ConfigError) < "
+    "blank-field loop (MissingInput) < validate_user_dummy_variable (InvalidInput, both tests) < check_math_response "
+    "by CFG dominance; normal forms of validate_input_positions and transform_list_to_dict.")
 NOT_DECIDED = ("numeric equality of the two sums within tolerance (compare_evaluations, C04); values produced by the "
                "formula evaluator; IntegralGrader's quadrature (scipy absent; only the shared base class is covered); "
-               "limits outside the enumerated domain (|limit| > 4, non-integer cutoffs).")
-ASSUMPTIONS = ["the evaluated subset of Python (ints, floats, inf, abs, %, int(), range, dict/list/set methods) behaves as documented",
-               "limits reach perform_summation only through evaluate_sum (checked: single caller)"]
+               "Python's range/int/% semantics (trusted).")
+ASSUMPTIONS = ["the cutoff is integral (the parity of a replaced infinite limit is then the parity of the cutoff)",
+               "limits reaching perform_summation are integers or +-inf (checked: single caller evaluate_sum, whose refusals dominate the call)",
+               "x % 2 of an integer is 0 or 1 (Python semantics for a positive modulus), so abs() around it is redundant"]
 
 SG = 'mitxgraders.formulagrader.integralgrader.SumGrader'
 SB = 'mitxgraders.formulagrader.integralgrader.SummationGraderBase'
-EVALUATOR = 'mitxgraders.helpers.calc.expressions.evaluator'
-INF = float('inf')
 
 
 def check(ctx):
-    idx = ctx.index
-    d1_sum(ctx, idx)
-    d2_limits(ctx, idx)
-    d3_author(ctx, idx)
-    d4_order(ctx, idx)
+    _run_all(ctx, ctx.index, [d1_summation, d2_limits, d3_author, d4_order])
 
 
-def _name(cls):
-    return cls.split('.')[-1] if isinstance(cls, str) else cls
+def _run_all(ctx, idx, fns):
+    """Run the rule functions; an unexpected failure inside the checker is an analysis error, never a crash."""
+    for f in fns:
+        try:
+            f(ctx, idx)
+        except AnalysisError:
+            raise
+        except Exception as e:      # pragma: no cover - defensive
+            ctx.rule('ENGINE.%s' % f.__name__, 'the checker could not finish this rule').undecided(
+                '<checker>', '%s: %s' % (type(e).__name__, e))
 
 
-class Groups(object):
-    """Collects case results per obligation group; reports the first failing case of each group."""
-
-    def __init__(self, rule, where):
-        self.rule = rule
-        self.where = where
-        self.groups = {}
-        self.order = []
-
-    def case(self, group, ok, scenario, expected, found):
-        g = self.groups.setdefault(group, {'n': 0, 'bad': []})
-        if group not in self.order:
-            self.order.append(group)
-        g['n'] += 1
-        if not ok:
-            g['bad'].append((scenario, expected, found))
-
-    def flush(self, why):
-        for group in self.order:
-            g = self.groups[group]
-            if g['bad']:
-                sc, exp, fnd = g['bad'][0]
-                self.rule.violation(group, 'for %s the code gives %s, the property needs %s (%d of %d cases differ)'
-                                    % (sc, fnd, exp, len(g['bad']), g['n']),
-                                    self.where, expected=str(exp), found=str(fnd))
-            else:
-                self.rule.ok(group, '%d cases agree with the reference table' % g['n'], self.where)
+def verdict(r, construct, res, where, ok_detail='', expected=None, why=''):
+    """Record MATCH / DIFF / UNRECOGNISED with an explanation of why the difference matters."""
+    if res == nf.MATCH:
+        r.ok(construct, ok_detail, where)
+    elif isinstance(res, tuple):
+        r.violation(construct, res[1] + (': ' + why if why else ''), where, expected=expected)
+    else:
+        r.undecided(construct, 'shape not recognised' + (' (expected %s)' % expected if expected else ''), where)
 
 
-def outcome(fn):
-    """Run a thunk; returns ('ret', value) | ('raise', class name) | ('loop', None)."""
-    try:
-        return ('ret', fn())
-    except Raised as r:
-        return ('raise', _name(r.cls))
-    except Budget:
-        return ('loop', None)
+# ----------------------------------------------------------------------------- infinity literals
+def inf_sign(e):
+    """+1 / -1 if the expression denotes +inf / -inf, 0 if it is not an infinity; Unrecognised for odd spellings."""
+    if isinstance(e, ast.UnaryOp) and isinstance(e.op, ast.USub):
+        s = inf_sign(e.operand)
+        return -s
+    if isinstance(e, ast.UnaryOp) and isinstance(e.op, ast.UAdd):
+        return inf_sign(e.operand)
+    if isinstance(e, ast.Call) and isinstance(e.func, ast.Name) and e.func.id == 'float' and len(e.args) == 1 \
+            and isinstance(e.args[0], ast.Constant) and isinstance(e.args[0].value, str):
+        v = e.args[0].value.strip().lower()
+        if v in ('inf', '+inf', 'infinity', '+infinity'):
+            return 1
+        if v in ('-inf', '-infinity'):
+            return -1
+        return 0
+    if isinstance(e, ast.Attribute) and e.attr in ('inf', 'infty', 'Inf', 'Infinity', 'PINF'):
+        return 1
+    if isinstance(e, ast.Attribute) and e.attr == 'NINF':
+        return -1
+    if isinstance(e, ast.Name) and e.id.lower() in ('inf', 'infinity'):
+        return 1
+    return 0
+
+
+def inf_test(test):
+    """(variable name, sign) if the canonical test is `<name> == +-inf`, else None."""
+    t = nf.canon(test)
+    if isinstance(t, ast.Compare) and len(t.ops) == 1 and isinstance(t.ops[0], ast.Eq):
+        a, b = t.left, t.comparators[0]
+        for x, y in ((a, b), (b, a)):
+            if isinstance(x, ast.Name) and inf_sign(y) != 0:
+                return x.id, inf_sign(y)
+    return None
 
 
 # ----------------------------------------------------------------------------- D1
-def expected_indices(l, u, eo, c):
-    lo, hi = (l, u) if l <= u else (u, l)
-    if lo == INF or hi == -INF:
-        return None
-    if lo == -INF:
-        lo = -c
-    if hi == INF:
-        hi = c
-    ks = [k for k in range(int(lo) - 2, int(hi) + 3) if lo <= k <= hi]
-    if eo == 1:
-        ks = [k for k in ks if k % 2 == 1]
-    elif eo == 2:
-        ks = [k for k in ks if k % 2 == 0]
-    return ks
+RANGE_PATTERNS = ["range(int(lower), int(upper + 1), _D)", "range(int(lower), int(upper) + 1, _D)"]
 
 
-def d1_sum(ctx, idx):
-    r = ctx.rule('D1.SUM', 'perform_summation sums exactly the integers between the limits (either order), odd/even '
-                 'only when configured, +-inf -> cutoff, same-sign infinities refused', floor=7)
+def d1_summation(ctx, idx):
+    r = ctx.rule('D1.SUM', 'perform_summation: inclusive integer range over the ordered limits, +-inf -> cutoff, parity step, '
+                 'every evaluation summed', floor=12)
     with r:
         fi = idx.func(SG + '.perform_summation')
+        fn = fi.node
         if not fi.is_static or fi.params[:5] != ['eval_summand', 'lower', 'upper', 'even_odd', 'infty_val']:
             raise AnalysisError('perform_summation: signature changed: %s' % fi.params)
-        G = Groups(r, fi.loc)
-        finite = list(range(-4, 5))
-        lims = [-INF] + finite + [INF]
-
-        def run(l, u, eo, c):
-            calls = []
-            it = Interp(idx, max_steps=20000)
-
-            def summand(n):
-                calls.append(n)
-                return 3 ** (int(n) + 12) if abs(n) < 12 else 0
-            res = outcome(lambda: it.call_function(fi, [Native(summand, 'eval_summand'), l, u, eo, c]))
-            return res, calls
-
-        def judge(group, l, u, eo, c):
-            exp = expected_indices(l, u, eo, c)
-            res, calls = run(l, u, eo, c)
-            sc = 'lower=%s, upper=%s, even_odd=%d, cutoff=%s' % (describe(l), describe(u), eo, describe(c))
-            if exp is None:
-                G.case(group, res == ('raise', 'SummationError'), sc, 'SummationError', _show(res, calls))
-                return
-            want = sum(3 ** (k + 12) for k in exp)
-            ok = res[0] == 'ret' and sorted(calls) == exp and res[1] == want
-            G.case(group, ok, sc, 'the sum over k in %s' % exp, _show(res, calls))
-
-        for eo, group in ((0, 'perform_summation: every integer between the limits, inclusive, either order'),
-                          (1, 'perform_summation: odd integers only (even_odd=1)'),
-                          (2, 'perform_summation: even integers only (even_odd=2)')):
-            for l in finite:
-                for u in finite:
-                    judge(group, l, u, eo, 6)
-        for eo in (0, 1, 2):
-            for l, u in ((-3, 2), (2, -3), (1, 4), (0, 0), (3, 3), (-2, -2)):
-                judge('perform_summation: limits given as floats', float(l), float(u), eo, 6.0)
-        for eo in (0, 1, 2):
-            for c in (6, 7, 6.0):
-                for x in (-3, 0, 2, 3):
-                    judge('perform_summation: infinite limits are replaced by the cutoff', -INF, x, eo, c)
-                    judge('perform_summation: infinite limits are replaced by the cutoff', x, -INF, eo, c)
-                    judge('perform_summation: infinite limits are replaced by the cutoff', x, INF, eo, c)
-                    judge('perform_summation: infinite limits are replaced by the cutoff', INF, x, eo, c)
-                judge('perform_summation: infinite limits are replaced by the cutoff', -INF, INF, eo, c)
-                judge('perform_summation: infinite limits are replaced by the cutoff', INF, -INF, eo, c)
-        for eo in (0, 1, 2):
-            judge('perform_summation: same-sign infinite limits raise SummationError', INF, INF, eo, 6)
-            judge('perform_summation: same-sign infinite limits raise SummationError', -INF, -INF, eo, 6)
-        G.flush({})
-        # single caller: limits are checked by evaluate_sum before they get here
+        # ---- O1 the range term
+        ranges = [c for c in walk_own(fn) if isinstance(c, ast.Call) and isinstance(c.func, ast.Name) and c.func.id == 'range']
+        if len(ranges) != 1:
+            raise AnalysisError('perform_summation: expected one range(...) call, found %d' % len(ranges))
+        rng = ranges[0]
+        binds = {}
+        res = nf.classify(RANGE_PATTERNS, rng, binds)
+        verdict(r, 'perform_summation: index range', res, lib.loc(fi, rng), 'range(int(lower), int(upper + 1), delta)',
+                expected='range(int(lower), int(upper + 1), delta)',
+                why='the sum must run over every integer from the lower to the upper limit inclusive')
+        delta_name = binds['_D'].id if res == nf.MATCH and isinstance(binds.get('_D'), ast.Name) else None
+        if res == nf.MATCH and delta_name is None:
+            raise AnalysisError('perform_summation: the step of the range is not a local variable: %s' % short(rng))
+        # ---- O2 every evaluation is summed
+        _sub(r, _sum_of_all, r, fi, rng)
+        # ---- O3 swap
+        swap_stmt = _sub(r, _swap, r, fi)
+        # ---- O4/O5 infinities
+        inf_stmts = _sub(r, _infinities, r, fi)
+        # ---- O6 parity
+        parity_stmt = _sub(r, _parity, r, fi, delta_name)
+        # ---- O7 order
+        if swap_stmt is not None and parity_stmt is not None and inf_stmts:
+            rng_stmt = lib.enclosing_stmt(rng)
+            problems = []
+            for key, st in inf_stmts.items():
+                if not X.dominates(fi, swap_stmt, st):
+                    problems.append('the limits are ordered only after the test `%s`' % short(st.test))
+                if key in (('lower', -1), ('upper', 1)) and not X.dominates(fi, st, parity_stmt):
+                    problems.append('the parity step runs before `%s` replaces the infinite limit' % short(st.test))
+            if not X.dominates(fi, swap_stmt, parity_stmt):
+                problems.append('the parity step runs before the limits are ordered (it would adjust the wrong limit)')
+            if not X.dominates(fi, parity_stmt, rng_stmt):
+                problems.append('the range is built before the parity step')
+            for st in inf_stmts.values():
+                if not X.dominates(fi, st, rng_stmt):
+                    problems.append('the range is built before `%s`' % short(st.test))
+            r.check(not problems, 'perform_summation: order of the steps', 'swap < infinity handling < parity step < range',
+                    '; '.join(problems[:3]), fi.loc, expected='swap, infinity handling, parity step, range')
+        # single caller
         callers = [f for f in idx.package_funcs() if lib.calls_named(f.node, 'perform_summation')]
         r.check([f.qualname for f in callers] == [SG + '.evaluate_sum'], 'perform_summation: callers',
                 'called only by SumGrader.evaluate_sum (after the limit checks)',
@@ -177,372 +181,976 @@ def d1_sum(ctx, idx):
                 % [f.qualname for f in callers], fi.loc)
 
 
-def _show(res, calls=None):
-    if res[0] == 'raise':
-        return 'raise %s' % res[1]
-    if res[0] == 'loop':
-        return 'no result within the step bound'
-    if calls is not None:
-        return 'a sum over k in %s' % sorted(calls)
-    return 'returns %s' % (describe(res[1]),)
+def _sub(r, f, *args):
+    """Run one obligation group; an unrecognised shape there does not hide the verdicts of the others."""
+    try:
+        return f(*args)
+    except AnalysisError as e:
+        r.undecided('<%s>' % f.__name__.strip('_'), str(e))
+        return None
+
+
+def _sum_of_all(r, fi, rng):
+    fn = fi.node
+    construct = 'perform_summation: every evaluation in the range is summed'
+    rets = [s for s in fn.body if isinstance(s, ast.Return)]
+    if len(rets) != 1 or rets[0].value is None or fn.body[-1] is not rets[0]:
+        raise AnalysisError('perform_summation: expected the function to end in a single return of the sum')
+    value = lib.inline_locals(rets[0].value, fn)
+    for p in ("sum([eval_summand(_N) for _N in _RANGE])", "sum(eval_summand(_N) for _N in _RANGE)",
+              "sum([eval_summand(_N) for _N in _RANGE], 0)"):
+        b = X.m(p, value)
+        if b is not None and isinstance(b['_RANGE'], ast.Call) and nf.callee_name(b['_RANGE']) == 'range':
+            r.ok(construct, 'sum of eval_summand(n) for n in the range, no filter', lib.loc(fi, rets[0]))
+            return
+    # a comprehension with a filter, or a slice of the evaluations, is a recognised way of dropping terms
+    comp = [n for n in walk_own(fn) if isinstance(n, (ast.ListComp, ast.GeneratorExp)) and any(x is rng for x in ast.walk(n))]
+    if comp and any(g.ifs for g in comp[0].generators):
+        r.violation(construct, 'the comprehension over the range filters terms (`%s`)' % short(comp[0]), lib.loc(fi, comp[0]))
+        return
+    loop = X.enclosing_loop(rng) if not comp else None
+    loops = [n for n in walk_own(fn) if isinstance(n, ast.For) and n.iter is rng]
+    if loops:
+        lp = loops[0]
+        if not isinstance(lp.target, ast.Name):
+            raise AnalysisError('loop target')
+        acc = [s for s in lp.body if not (isinstance(s, ast.Expr)) and not _is_probe(s)]
+        if len(acc) == 1:
+            b = X.any_match([X.spat("_R = _R + eval_summand(%s)" % lp.target.id), X.spat("_R = eval_summand(%s) + _R" % lp.target.id)], acc[0])
+            if b is not None and isinstance(b['_R'], ast.Name) and X.is_name(rets[0].value, b['_R'].id):
+                exits = lib.loop_has_early_exit(lp)
+                r.check(not exits and not lp.orelse, construct, 'accumulating loop without early exit',
+                        'the accumulating loop can stop early (`%s`): later terms are not summed' % (short(exits[0]) if exits else 'else'),
+                        lib.loc(fi, lp))
+                return
+    r.undecided(construct, 'the returned value `%s` is not recognised as the sum of all evaluations' % short(value), lib.loc(fi, rets[0]))
+
+
+def _is_probe(s):
+    return isinstance(s, ast.Assign) and len(s.targets) == 1 and isinstance(s.targets[0], ast.Name) and isinstance(s.value, ast.Constant)
+
+
+def _swap(r, fi):
+    fn = fi.node
+    construct = 'perform_summation: reversed limits are swapped'
+    SWAPS = [X.spat("lower, upper = upper, lower"), X.spat("upper, lower = lower, upper")]
+    for st in walk_own(fn):
+        if isinstance(st, ast.Assign) and X.any_match([X.spat("lower, upper = min(lower, upper), max(lower, upper)"),
+                                                       X.spat("lower, upper = min(upper, lower), max(upper, lower)")], st) is not None:
+            r.ok(construct, 'lower, upper = min(...), max(...)', lib.loc(fi, st))
+            return st
+    cands = [s for s in walk_own(fn) if isinstance(s, ast.If) and {'lower', 'upper'} <= X.names_loaded(s.test)
+             and not any(inf_sign(x) for x in ast.walk(s.test))]
+    for st in cands:
+        body = [s for s in st.body if not isinstance(s, ast.Expr) and not _is_probe(s)]
+        if len(body) == 1 and X.any_match(SWAPS, body[0]) is not None and not st.orelse:
+            res = nf.classify(["upper < lower", "upper <= lower"], st.test)
+            verdict(r, construct, res, lib.loc(fi, st), 'if lower > upper: swap', expected='if lower > upper: lower, upper = upper, lower',
+                    why='the swap must happen exactly when the limits are reversed, otherwise ordered limits are reversed into an empty range')
+            return st
+    if cands:
+        r.undecided(construct, 'a comparison of the limits exists but is not a recognised swap: %s' % short(cands[0].test), lib.loc(fi, cands[0]))
+        return None
+    r.violation(construct, 'the limits are never compared or reordered: with the lower limit above the upper one '
+                '`range(int(lower), int(upper + 1))` is empty and the sum is 0', fi.loc,
+                expected='if lower > upper: lower, upper = upper, lower')
+    return None
+
+
+def _infinities(r, fi):
+    fn = fi.node
+    found = {}
+    for st in walk_own(fn):
+        if isinstance(st, ast.If):
+            t = inf_test(st.test)
+            if t is not None and t[0] in ('lower', 'upper'):
+                if t in found:
+                    raise AnalysisError('two tests of %s against %sinf' % (t[0], '-' if t[1] < 0 else '+'))
+                found[t] = st
+    spec = [(('lower', -1), 'assign', "lower = -infty_val", 'perform_summation: lower == -inf is replaced by -cutoff',
+             'sums from -infty would start at +cutoff / not be replaced'),
+            (('upper', 1), 'assign', "upper = infty_val", 'perform_summation: upper == +inf is replaced by +cutoff',
+             'sums to +infty would end at -cutoff / not be replaced'),
+            (('upper', -1), 'raise', None, 'perform_summation: a sum from -inf to -inf raises SummationError', ''),
+            (('lower', 1), 'raise', None, 'perform_summation: a sum from +inf to +inf raises SummationError', '')]
+    for key, kind, pattern, construct, why in spec:
+        st = found.get(key)
+        if st is None:
+            var = key[0]
+            if kind == 'assign':
+                others = [a for a in walk_own(fn) if isinstance(a, ast.Assign) and len(a.targets) == 1 and X.is_name(a.targets[0], var)
+                          and X.mentions(a.value, 'infty_val')]
+                clamp = [a for a in others if X.any_match(["max(%s, -infty_val)" % var, "max(-infty_val, %s)" % var, "min(%s, infty_val)" % var,
+                                                           "min(infty_val, %s)" % var], a.value) is not None]
+                if clamp:
+                    r.violation(construct, '`%s` clamps the limit instead of replacing only an infinite one: every finite limit beyond the cutoff is '
+                                'truncated too, so e.g. with infty_val=10 the sums to 10, 11 and 12 are all graded as the same sum'
+                                % short(clamp[0]), lib.loc(fi, clamp[0]), expected="if %s == %sfloat('inf'): %s" % (var, '-' if key[1] < 0 else '', pattern))
+                    continue
+                if others:
+                    r.undecided(construct, 'replacement by the cutoff not recognised: %s' % short(others[0]), lib.loc(fi, others[0]))
+                    continue
+            r.violation(construct, 'no test of `%s == %sfloat(\'inf\')` exists: %s' % (
+                key[0], '-' if key[1] < 0 else '', 'int() of the infinite limit raises OverflowError' if kind == 'assign'
+                else 'the range over two equal infinite limits fails with OverflowError instead of a student-facing error'),
+                fi.loc, expected=pattern or 'raise SummationError')
+            continue
+        body = [s for s in st.body if not isinstance(s, ast.Expr) and not _is_probe(s)]
+        where = lib.loc(fi, st)
+        if st.orelse:
+            raise AnalysisError('else branch on `%s`' % short(st.test))
+        if kind == 'assign':
+            if len(body) != 1 or not isinstance(body[0], ast.Assign):
+                r.violation(construct, 'the branch does not replace the limit: `%s`' % short(body[0] if body else st), where, expected=pattern)
+                continue
+            verdict(r, construct, nf.classify(X.spat(pattern), body[0]), where, pattern, expected=pattern, why=why)
+        else:
+            ok, classes = X.body_raises(st.body)
+            if not ok and not classes:
+                r.violation(construct, 'the branch `%s` does not raise: two equal infinite limits yield a value' % short(st.test), where,
+                            expected='raise SummationError')
+            else:
+                r.check(ok and classes == {'SummationError'}, construct, 'raises SummationError',
+                        'the branch raises %s instead of SummationError' % sorted(classes), where, expected='SummationError')
+    return found
+
+
+def _affine_text(form):
+    a, b = form
+    if a == 1:
+        return 'lower' if b == 0 else 'lower %s %s' % ('+' if b > 0 else '-', abs(b))
+    return '%s*lower %s %s' % (a, '+' if b >= 0 else '-', abs(b))
+
+
+def affine(e, odd, neg):
+    """Abstract value of an integer expression over `lower`, for all integers `lower` of the given parity and sign
+    class, as (a, b) meaning a*lower + b (Fractions); None if the expression leaves the analysable fragment
+    (+, -, * and / by constants, // 2, int() of integers and half-integers of known sign)."""
+    from fractions import Fraction as Fr
+    p = 1 if odd else 0
+    first = (-1 if odd else -2) if neg else p          # the member of the class closest to zero
+
+    def ev(x):
+        if isinstance(x, ast.Name):
+            return (Fr(1), Fr(0)) if x.id == 'lower' else None
+        if isinstance(x, ast.Constant) and isinstance(x.value, (int, float)) and not isinstance(x.value, bool) and x.value == int(x.value):
+            return (Fr(0), Fr(int(x.value)))
+        if isinstance(x, ast.UnaryOp) and isinstance(x.op, ast.USub):
+            v = ev(x.operand)
+            return None if v is None else (-v[0], -v[1])
+        if isinstance(x, ast.BinOp):
+            l, r_ = ev(x.left), ev(x.right)
+            if l is None or r_ is None:
+                return None
+            if isinstance(x.op, ast.Add):
+                return (l[0] + r_[0], l[1] + r_[1])
+            if isinstance(x.op, ast.Sub):
+                return (l[0] - r_[0], l[1] - r_[1])
+            if isinstance(x.op, ast.Mult):
+                if l[0] == 0:
+                    return (r_[0] * l[1], r_[1] * l[1])
+                if r_[0] == 0:
+                    return (l[0] * r_[1], l[1] * r_[1])
+                return None
+            if isinstance(x.op, ast.Div) and r_[0] == 0 and r_[1] != 0:
+                return (l[0] / r_[1], l[1] / r_[1])
+            if isinstance(x.op, ast.FloorDiv) and r_[0] == 0 and r_[1] > 0:
+                return rounding((l[0] / r_[1], l[1] / r_[1]), floor=True)
+            if isinstance(x.op, ast.Mod) and r_ == (Fr(0), Fr(2)) and l == (Fr(1), Fr(0)):
+                return (Fr(0), Fr(p))
+            return None
+        if isinstance(x, ast.Call) and isinstance(x.func, ast.Name) and x.func.id == 'int' and len(x.args) == 1 and not x.keywords:
+            v = ev(x.args[0])
+            return None if v is None else rounding(v, floor=False)
+        if isinstance(x, ast.Call) and isinstance(x.func, ast.Name) and x.func.id == 'abs' and len(x.args) == 1:
+            v = ev(x.args[0])
+            if v is not None and v[0] == 0:
+                return (Fr(0), abs(v[1]))
+            return None
+        return None
+
+    def rounding(v, floor):
+        a, b = v
+        # value = a*lower + b = N/2 with N = 2a*lower + 2b (only halves are handled)
+        A, B = 2 * a, 2 * b
+        if A.denominator != 1 or B.denominator != 1:
+            return None
+        A, B = int(A), int(B)
+        if (A * p + B) % 2 == 0:
+            return v                      # always an integer
+        if floor:
+            return (a, b - Fr(1, 2))
+        # truncation toward zero of a half-integer: need its sign over the whole class
+        n0 = A * first + B               # numerator at the member closest to zero
+        if not neg:
+            if A >= 0 and n0 > 0:
+                return (a, b - Fr(1, 2))
+            if A <= 0 and n0 < 0:
+                return (a, b + Fr(1, 2))
+        else:
+            if A >= 0 and n0 < 0:
+                return (a, b + Fr(1, 2))
+            if A <= 0 and n0 > 0:
+                return (a, b - Fr(1, 2))
+        return None
+    out = ev(e)
+    if out is None:
+        return None
+    a, b = out
+    if a.denominator != 1 or b.denominator != 1:
+        return None
+    return (int(a), int(b))
+
+
+def _parity(r, fi, delta_name):
+    fn = fi.node
+    tops = [s for s in walk_own(fn) if isinstance(s, ast.If) and X.mentions(s.test, 'even_odd')
+            and not any(isinstance(a, ast.If) and X.mentions(a.test, 'even_odd') and s in a.orelse for a in walk_own(fn))]
+    if len(tops) != 1:
+        raise AnalysisError('perform_summation: expected one if-chain on even_odd, found %d' % len(tops))
+    top = tops[0]
+    if delta_name is None:
+        return top
+    paths = nf.decision_paths([top], keep_locals=())
+
+    def atom(e):
+        if isinstance(e, ast.Compare) and len(e.ops) == 1 and isinstance(e.ops[0], (ast.Eq, ast.NotEq)):
+            a, b = e.left, e.comparators[0]
+            for x, y in ((a, b), (b, a)):
+                if X.is_name(x, 'even_odd') and isinstance(y, ast.Constant) and isinstance(y.value, int):
+                    eq = isinstance(e.ops[0], ast.Eq)
+                    return lambda w, v=y.value, eq=eq: (w['even_odd'] == v) == eq
+        return None
+
+    def term(e):
+        if isinstance(e, ast.Constant) and isinstance(e.value, int) and not isinstance(e.value, bool):
+            return lambda w, v=e.value: v
+        if X.m("lower % 2", e) is not None or X.m("abs(lower % 2)", e) is not None:
+            return lambda w: 1 if w['odd'] else 0
+        if X.is_name(e, 'even_odd'):
+            return lambda w: w['even_odd']
+        return None
+    guards = X.Guards(atom, term)
+    names = {0: 'perform_summation: even_odd=0 sums every integer (step 1, lower limit unchanged)',
+             1: 'perform_summation: even_odd=1 steps by 2 from the first odd integer',
+             2: 'perform_summation: even_odd=2 steps by 2 from the first even integer'}
+    for k in (0, 1, 2):
+        bad = None
+        for odd in (False, True):
+            w = {'even_odd': k, 'odd': odd}
+            sel = X.select_paths(paths, guards, w)
+            if len(sel) != 1:
+                raise AnalysisError('parity decision paths are not exclusive')
+            leaf = sel[0].leaf
+            if leaf.kind != 'fall':
+                bad = ('the branch %s' % ('returns' if leaf.kind == 'ret' else 'raises'), 'falls through to the range')
+                break
+            env = leaf.env
+            d = env.get(delta_name)
+            want_delta = 1 if k == 0 else 2
+            got_delta = d.value if isinstance(d, ast.Constant) else (short(d) if d is not None else 'unset')
+            lo = env.get('lower')
+            advance = (k == 1 and not odd) or (k == 2 and odd)
+            want_off = 1 if advance else 0
+            got_lower = None
+            for neg in (False, True):
+                form = (1, 0) if lo is None else affine(lo, odd, neg)
+                if form is None:
+                    raise AnalysisError('new lower limit `%s` is not analysable for %s %s limits' % (
+                        short(lo), 'negative' if neg else 'non-negative', 'odd' if odd else 'even'))
+                if form != (1, want_off):
+                    got_lower = ('%s' % _affine_text(form), 'negative' if neg else 'non-negative')
+                    break
+            if got_delta != want_delta or got_lower is not None:
+                cls = '%s%s' % ((got_lower[1] + ' ') if got_lower else '', 'odd' if odd else 'even')
+                bad = ('for a%s %s lower limit: step %s starting at %s%s' % ('n' if cls[0] in 'aeiou' else '', cls, got_delta,
+                                                                             got_lower[0] if got_lower else _affine_text((1, want_off)),
+                                                                             (' (`%s`)' % short(lo)) if lo is not None and got_lower else ''),
+                       'step %s starting at %s' % (want_delta, _affine_text((1, want_off))))
+                break
+        if bad:
+            r.violation(names[k], 'with even_odd=%d the code gives %s, the property needs %s' % (k, bad[0], bad[1]),
+                        lib.loc(fi, top), expected=bad[1], found=bad[0])
+        else:
+            r.ok(names[k], 'both parities of the lower limit', lib.loc(fi, top))
+    return top
 
 
 # ----------------------------------------------------------------------------- D2
-class SumModel(Model):
-    intercept = (EVALUATOR,)
-
-    def __init__(self):
-        self.events = []
-
-    def call(self, f, args, kwargs, node, interp):
-        if getattr(f, 'fi', None) is not None and f.fi.qualname == EVALUATOR:
-            formula = args[0] if args else kwargs.get('formula')
-            variables = kwargs.get('variables', args[1] if len(args) > 1 else None)
-            self.events.append(('evaluator', formula, dict(variables) if isinstance(variables, dict) else variables,
-                                kwargs.get('functions', args[2] if len(args) > 2 else None),
-                                kwargs.get('suffixes', args[3] if len(args) > 3 else None)))
-            return (Sym('value'), Sym('usage'))
-        return Model.call(self, f, args, kwargs, node, interp)
-
-
 def d2_limits(ctx, idx):
-    r = ctx.rule('D2.LIMITS', 'evaluate_sum refuses bad limits / a summation variable in scope before summing, picks '
-                 'the right cutoff and evaluates the summand only through varscope[summation_var]', floor=8)
+    r = ctx.rule('D2.LIMITS', 'evaluate_sum: refusals (variable in scope, complex, non-integer) raise SummationError before the '
+                 'summation; cutoff by factorial use; summand closure binds and releases the index', floor=21)
     with r:
         fi = idx.func(SG + '.evaluate_sum')
-        if fi.params[:5] != ['self', 'summand_str', 'lower_str', 'upper_str', 'summation_var']:
+        fn = fi.node
+        if fi.params[:7] != ['self', 'summand_str', 'lower_str', 'upper_str', 'summation_var', 'varscope', 'funcscope']:
             raise AnalysisError('evaluate_sum: signature changed: %s' % fi.params)
-        G = Groups(r, fi.loc)
-        CFG = {'infty_val': 1000.0, 'infty_val_fact': 80, 'even_odd': 0}
+        glf = X.find_stmts(fn, "_L, _U, _F = self.get_limits_and_funcs(summand_str, lower_str, upper_str, varscope, funcscope)")
+        if len(glf) != 1:
+            raise AnalysisError('evaluate_sum: the call of get_limits_and_funcs(summand_str, lower_str, upper_str, varscope, funcscope) '
+                                'with its three results was not found')
+        st_glf, b = glf[0]
+        if not all(isinstance(b[k], ast.Name) for k in ('_L', '_U', '_F')):
+            raise AnalysisError('evaluate_sum: results of get_limits_and_funcs are not bound to plain names')
+        L, U, F = b['_L'].id, b['_U'].id, b['_F'].id
+        ps_calls = lib.calls_named(fn, 'perform_summation')
+        if len(ps_calls) != 1:
+            raise AnalysisError('evaluate_sum: expected one call of perform_summation')
+        ps = ps_calls[0]
+        ifs = [s for s in walk_own(fn) if isinstance(s, ast.If)]
 
-        def run(l, u, used, scope, var='k', even_odd=0):
-            model = SumModel()
-            it = Interp(idx, model, max_steps=20000)
-            summand, lo_s, up_s, sfx = Sym('summand_str'), Sym('lower_str'), Sym('upper_str'), Sym('suffixes')
-            funcscope = {'sin': Sym('sin')}
-            ev = model.events
+        def refusal(construct, st, why_missing):
+            """The If statement must raise SummationError on every path of its body and dominate the summation."""
+            ok, classes = X.body_raises(st.body)
+            where = lib.loc(fi, st)
+            if not ok and not classes:
+                r.violation(construct, 'the branch `%s` does not raise' % short(st.test), where, expected='raise SummationError')
+                return
+            r.check(ok and classes == {'SummationError'}, construct + ' [class]', 'raises SummationError',
+                    'the refusal raises %s instead of the student-facing SummationError' % sorted(classes), where,
+                    expected='SummationError', found=', '.join(sorted(classes)))
+            r.check(X.dominates(fi, st, ps), construct + ' [before the summation]', 'dominates perform_summation',
+                    'the summation can run before/without this check', where)
 
-            def glf(expression, lower_str, upper_str, varscope, funcscope_):
-                ev.append(('limits', expression is summand and lower_str is lo_s and upper_str is up_s
-                           and varscope is scope and funcscope_ is funcscope))
-                return (l, u, used)
-
-            def ps(f, lower, upper, eo, cutoff):
-                ev.append(('sum', lower, upper, eo, cutoff))
-                for n in (7, -2):
-                    it.call(f, [n])
-                    ev.append(('after-term', dict(scope)))
-                return RESULT
-            RESULT = Sym('RESULT')
-            cfg = dict(CFG)
-            cfg['even_odd'] = even_odd
-            self_obj = Obj(SG, fields={'config': cfg, 'suffixes': sfx},
-                           stubs={'get_limits_and_funcs': Native(glf), 'perform_summation': Native(ps)})
-            before = dict(scope)
-            res = outcome(lambda: it.call_function(fi, [summand, lo_s, up_s, var], {'varscope': scope, 'funcscope': funcscope},
-                                                   self_obj=self_obj))
-            return res, ev, before, (summand, funcscope, sfx, RESULT)
-
-        def summed(ev):
-            return [e for e in ev if e[0] == 'sum']
-
-        # (a) summation variable already has a meaning
-        g = 'evaluate_sum: a summation variable that is already in scope raises SummationError'
-        for scope in ({'x': 2.0, 'k': 1.0}, {'k': 3.0}):
-            res, ev, before, _ = run(1, 5, set(), scope)
-            G.case(g, res == ('raise', 'SummationError') and not summed(ev) and scope == before,
-                   'summation_var=k, scope=%s' % sorted(before), 'SummationError, nothing summed, scope untouched',
-                   _show2(res, ev, scope, before))
+        # (a) summation variable in scope
+        construct = 'evaluate_sum: a summation variable already in scope is refused'
+        cands = [s for s in ifs if {'summation_var', 'varscope'} <= X.names_loaded(s.test)]
+        if not cands:
+            r.violation(construct, 'no test of `summation_var in varscope` exists: a variable with a meaning (a sampled variable, i, j) is '
+                        'silently overwritten and then deleted by the summand closure', fi.loc, expected='if summation_var in varscope: raise SummationError')
+        else:
+            st = cands[0]
+            res = nf.classify("summation_var in varscope", st.test)
+            verdict(r, construct, res, lib.loc(fi, st), 'summation_var in varscope', expected='summation_var in varscope',
+                    why='the refusal must fire exactly when the name is taken')
+            refusal(construct, st, '')
         # (b) complex limits
-        g = 'evaluate_sum: complex limits raise SummationError'
-        for l, u in ((1 + 2j, 3), (1, 3j), (2j, 1j)):
-            res, ev, before, _ = run(l, u, set(), {'x': 2.0})
-            G.case(g, res == ('raise', 'SummationError') and not summed(ev), 'lower=%r, upper=%r' % (l, u),
-                   'SummationError before any summation', _show2(res, ev))
-        # (c) non-integer finite limits
-        g = 'evaluate_sum: finite non-integer limits raise SummationError'
-        for l, u in ((2.5, 4), (1, 4.5), (0.5, 1.5), (-INF, 2.5), (2.5, INF), (-1.25, 3.0)):
-            res, ev, before, _ = run(l, u, set(), {'x': 2.0})
-            G.case(g, res == ('raise', 'SummationError') and not summed(ev), 'lower=%s, upper=%s' % (describe(l), describe(u)),
-                   'SummationError before any summation', _show2(res, ev))
-        # (d) acceptable limits are summed, with the limits handed on unchanged
-        g = 'evaluate_sum: integer and infinite limits are summed as given'
-        for l, u in ((1, 5), (1.0, 5.0), (5, 1), (-INF, 3), (2, INF), (-INF, INF), (INF, -INF), (0, 0), (-3.0, 2)):
-            for eo in (0, 1, 2):
-                res, ev, before, (summand, funcscope, sfx, RESULT) = run(l, u, {'sin'}, {'x': 2.0}, even_odd=eo)
-                s = summed(ev)
-                ok = (res[0] == 'ret' and len(s) == 1 and {s[0][1], s[0][2]} == {l, u} and s[0][3] == eo
-                      and isinstance(res[1], tuple) and len(res[1]) == 2 and res[1][0] is RESULT and res[1][1] == {'sin'}
-                      and ('limits', True) in ev)
-                G.case(g, ok, 'lower=%s, upper=%s, even_odd=%d' % (describe(l), describe(u), eo),
-                       'perform_summation(summand, %s, %s, %d, cutoff) and (result, used functions) returned'
-                       % (describe(l), describe(u), eo), _show2(res, ev))
-        # (e) cutoff
-        g = 'evaluate_sum: factorial cutoff exactly when fact/factorial is used'
-        for used, want in ((set(), 1000.0), ({'sin'}, 1000.0), ({'fact'}, 80), ({'factorial'}, 80),
-                           ({'sin', 'factorial'}, 80), ({'fact', 'factorial'}, 80), ({'factor'}, 1000.0)):
-            res, ev, before, _ = run(1, INF, used, {'x': 2.0})
-            s = summed(ev)
-            G.case(g, res[0] == 'ret' and len(s) == 1 and s[0][4] == want, 'functions used = %s' % sorted(used),
-                   'cutoff %s' % want, ('cutoff %s' % s[0][4]) if s else _show2(res, ev))
-        # (f) the summand sees the index through varscope[summation_var] only; scope restored
-        g = 'evaluate_sum: summand evaluated with varscope[summation_var] = index'
-        g2 = 'evaluate_sum: the scope is left as it was found'
-        for var in ('k', 'n'):
-            scope = {'x': 2.0}
-            res, ev, before, (summand, funcscope, sfx, RESULT) = run(1, 5, set(), scope, var=var)
-            evs = [e for e in ev if e[0] == 'evaluator']
-            ok = res[0] == 'ret' and len(evs) == 2
-            for e, n in zip(evs, (7, -2)):
-                ok = ok and e[1] is summand and isinstance(e[2], dict) and e[2] == {'x': 2.0, var: n} \
-                    and e[3] is funcscope and e[4] is sfx
-            G.case(g, ok, 'summation_var=%s, scope={x}' % var,
-                   'evaluator(summand, variables={x, %s: index}, functions=funcscope, suffixes=self.suffixes)' % var,
-                   _show2(res, ev))
-            after = [e[1] for e in ev if e[0] == 'after-term']
-            G.case(g2, res[0] == 'ret' and scope == before and all(a == before for a in after), 'summation_var=%s' % var,
-                   'scope == {x} after every term and after the call',
-                   'scope %s after a term, %s after the call' % ([sorted(a) for a in after], sorted(scope))
-                   if res[0] == 'ret' else _show2(res, ev))
-        G.flush({})
-        # (g) error classes are student-facing
+        construct = 'evaluate_sum: complex limits are refused'
+        cands = [s for s in ifs if any(isinstance(c, ast.Call) and nf.callee_name(c) == 'isinstance' and len(c.args) == 2
+                                       and X.is_name(c.args[1], 'complex') for c in ast.walk(s.test))]
+        if not cands:
+            r.violation(construct, 'no isinstance(..., complex) test exists: complex limits reach int() and fail with TypeError', fi.loc,
+                        expected='isinstance(lower, complex) or isinstance(upper, complex)')
+        else:
+            st = cands[0]
+            res = nf.classify("isinstance(%s, complex) or isinstance(%s, complex)" % (L, U), st.test)
+            verdict(r, construct, res, lib.loc(fi, st), 'both limits tested', expected='isinstance(lower, complex) or isinstance(upper, complex)',
+                    why='a complex value of the untested limit reaches int() and fails with TypeError instead of SummationError')
+            refusal(construct, st, '')
+        # (c) integer limits
+        for V, label in ((L, 'lower'), (U, 'upper')):
+            construct = 'evaluate_sum: a finite non-integer %s limit is refused' % label
+            cands = [s for s in ifs if X.mentions(s.test, V) and _mentions_integrality(s.test, V)]
+            if not cands:
+                r.violation(construct, 'no integrality test of the %s limit exists: int() truncates it silently and a different sum is graded'
+                            % label, fi.loc, expected="abs(%s) != float('inf') and int(%s) != %s" % (label, label, label))
+                continue
+            st = cands[0]
+            pats = ["abs(%s) != float('inf') and int(%s) != %s" % (V, V, V), "abs(%s) != float('inf') and %s %% 1 != 0" % (V, V),
+                    "abs(%s) != float('inf') and not float(%s).is_integer()" % (V, V),
+                    "%s != float('inf') and %s != -float('inf') and int(%s) != %s" % (V, V, V, V)]
+            res = nf.classify(pats, st.test)
+            verdict(r, construct, res, lib.loc(fi, st), short(st.test), expected=pats[0].replace(V, label),
+                    why='infinite limits must pass this test (int(inf) raises OverflowError) and every finite non-integer must fail it')
+            refusal(construct, st, '')
+        # (d) cutoff
+        _cutoff(r, fi, ps, F)
+        # (e) the call of perform_summation
+        construct = 'evaluate_sum: perform_summation receives (closure, limits, even_odd, cutoff)'
+        a = list(ps.args)
+        eo = lib.get_kw(ps, 'even_odd', 3)
+        closure_name = a[0].id if a and isinstance(a[0], ast.Name) else None
+        if len(a) < 3 or closure_name is None or not (isinstance(a[1], ast.Name) and isinstance(a[2], ast.Name)):
+            r.undecided(construct, 'call not recognised: %s' % short(ps), lib.loc(fi, ps))
+        else:
+            probs = []
+            if {a[1].id, a[2].id} != {L, U}:
+                probs.append('the limits passed are `%s`, `%s`, not the evaluated limits %s, %s' % (a[1].id, a[2].id, L, U))
+            if eo is None:
+                probs.append("even_odd is not passed: every sum runs over all integers whatever config['even_odd'] says")
+            elif not lib.is_config(eo, 'even_odd'):
+                if isinstance(eo, ast.Constant) or nf.config_key(eo) is not None:
+                    probs.append("even_odd is `%s` instead of config['even_odd']: the configured parity is ignored" % short(eo))
+                else:
+                    raise AnalysisError('even_odd argument not recognised: %s' % short(eo))
+            r.check(not probs, construct, short(ps, 90), '; '.join(probs), lib.loc(fi, ps),
+                    expected="self.perform_summation(eval_summand, lower, upper, self.config['even_odd'], infty_val)")
+        # (f) the closure
+        if closure_name:
+            _closure(r, idx, fi, closure_name)
+        # (g) result
+        rets = lib.returns_of(fn)
+        construct = 'evaluate_sum: returns (sum, used functions)'
+        okr = len(rets) == 1 and rets[0].value is not None
+        if okr:
+            val = lib.inline_locals(rets[0].value, fn)
+            okr = isinstance(val, ast.Tuple) and len(val.elts) == 2 and val.elts[0] is not None and \
+                isinstance(val.elts[0], ast.Call) and nf.callee_name(val.elts[0]) == 'perform_summation' and X.is_name(val.elts[1], F)
+        if okr:
+            r.ok(construct, '', lib.loc(fi, rets[0]))
+        else:
+            r.undecided(construct, 'return value not recognised', fi.loc)
         se = idx.cls('mitxgraders.formulagrader.integralgrader.SummationError')
         r.check('mitxgraders.exceptions.StudentFacingError' in se.mro, 'SummationError', 'a StudentFacingError',
-                'SummationError no longer descends from StudentFacingError: limit errors are not shown to the student',
-                se.loc)
+                'SummationError no longer descends from StudentFacingError: limit errors are not shown to the student', se.loc)
 
 
-def _show2(res, ev, scope=None, before=None):
-    s = [e for e in ev if e[0] == 'sum']
-    if res[0] == 'raise':
-        text = 'raise %s' % res[1]
-    elif res[0] == 'loop':
-        text = 'no result within the step bound'
+def _split_ifexp(assign):
+    """`x = a if c else b`  ->  `if c: x = a  else: x = b` (so that the decision paths split on c)."""
+    v = assign.value
+    if isinstance(v, ast.IfExp):
+        return ast.If(test=v.test, body=[_split_ifexp(ast.Assign(targets=assign.targets, value=v.body))],
+                      orelse=[_split_ifexp(ast.Assign(targets=assign.targets, value=v.orelse))])
+    return assign
+
+
+def _mentions_integrality(test, V):
+    for n in ast.walk(test):
+        if isinstance(n, ast.Call) and isinstance(n.func, ast.Name) and n.func.id == 'int' and n.args and X.is_name(n.args[0], V):
+            return True
+        if isinstance(n, ast.BinOp) and isinstance(n.op, ast.Mod) and X.is_name(n.left, V):
+            return True
+        if isinstance(n, ast.Attribute) and n.attr == 'is_integer':
+            return True
+    return False
+
+
+def _cutoff(r, fi, ps, F):
+    fn = fi.node
+    construct = 'evaluate_sum: factorial cutoff exactly when fact or factorial is used'
+    # the cutoff argument
+    arg = lib.get_kw(ps, 'infty_val', 4)
+    if arg is None:
+        r.violation(construct, 'perform_summation is called without a cutoff: the default 1e3 is used whatever the configuration says',
+                    lib.loc(fi, ps))
+        return
+    if isinstance(arg, ast.Name):
+        stmts = [s for s in walk_own(fn) if isinstance(s, ast.If) and arg.id in X.assigned_names(s)
+                 and not any(isinstance(a, ast.If) and a is not s and X.in_subtree(s, a) for a in walk_own(fn))]
+        plain = [s for s in walk_own(fn) if isinstance(s, ast.Assign) and arg.id in X.assigned_names(s)
+                 and not any(X.in_subtree(s, i) for i in stmts)]
+        if len(stmts) == 1 and not plain:
+            paths = nf.decision_paths([stmts[0]])
+            value = lambda p: p.leaf.env.get(arg.id) if p.leaf.kind == 'fall' else None
+        elif not stmts and len(plain) == 1:
+            paths = nf.decision_paths([_split_ifexp(plain[0])])
+            value = lambda p: p.leaf.env.get(arg.id)
+        else:
+            raise AnalysisError('evaluate_sum: assignments of the cutoff `%s` not recognised' % arg.id)
     else:
-        text = 'returns %s' % (describe(res[1]),)
-    if s:
-        text += ' after perform_summation(summand, %s, %s, %s, %s)' % tuple(describe(x) for x in s[0][1:])
-    ev_calls = [e for e in ev if e[0] == 'evaluator']
-    if ev_calls:
-        text += '; summand evaluated with variables %s' % [e[2] for e in ev_calls]
-    if scope is not None and before is not None and scope != before:
-        text += '; scope changed to %s' % sorted(scope)
-    return text
+        paths = nf.decision_paths([_split_ifexp(ast.Assign(targets=[ast.Name(id='$cutoff', ctx=ast.Store())], value=arg))])
+        value = lambda p: p.leaf.env.get('$cutoff')
+
+    def member(e):
+        """'fact'/'factorial' if e is `'<name>' in F`."""
+        if isinstance(e, ast.Compare) and len(e.ops) == 1 and isinstance(e.ops[0], (ast.In, ast.NotIn)) \
+                and isinstance(e.left, ast.Constant) and isinstance(e.left.value, str) and X.is_name(e.comparators[0], F):
+            return e.left.value, isinstance(e.ops[0], ast.In)
+        return None
+
+    def set_literal(e):
+        if isinstance(e, (ast.Set, ast.List, ast.Tuple)) and all(isinstance(x, ast.Constant) for x in e.elts):
+            return {x.value for x in e.elts}
+        if isinstance(e, ast.Call) and isinstance(e.func, ast.Name) and e.func.id in ('set', 'frozenset') and len(e.args) == 1:
+            return set_literal(e.args[0])
+        return None
+
+    def atom(e):
+        mb = member(e)
+        if mb is not None:
+            name, pos = mb
+            return lambda w, name=name, pos=pos: (name in w['used']) == pos
+        # F & {...} / {...} & F / F.intersection({...}) / not F.isdisjoint({...})
+        if isinstance(e, ast.BinOp) and isinstance(e.op, ast.BitAnd):
+            for x, y in ((e.left, e.right), (e.right, e.left)):
+                if X.is_name(x, F) and set_literal(y) is not None:
+                    lit = set_literal(y)
+                    return lambda w, lit=lit: bool(w['used'] & lit)
+        if isinstance(e, ast.Call) and isinstance(e.func, ast.Attribute) and X.is_name(e.func.value, F) and len(e.args) == 1 \
+                and set_literal(e.args[0]) is not None:
+            lit = set_literal(e.args[0])
+            if e.func.attr == 'intersection':
+                return lambda w, lit=lit: bool(w['used'] & lit)
+            if e.func.attr == 'isdisjoint':
+                return lambda w, lit=lit: not (w['used'] & lit)
+        return None
+    guards = X.Guards(atom)
+    bad = None
+    # Venn regions of the used-function set with respect to {fact, factorial} (+ an unrelated name)
+    for used in (frozenset(), frozenset(['other']), frozenset(['fact']), frozenset(['factorial']), frozenset(['fact', 'factorial']),
+                 frozenset(['fact', 'other']), frozenset(['factorial', 'other'])):
+        sel = X.select_paths(paths, guards, {'used': used})
+        if len(sel) != 1:
+            raise AnalysisError('cutoff decision paths are not exclusive')
+        v = value(sel[0])
+        key = nf.config_key(v) if v is not None else None
+        want = 'infty_val_fact' if (used & {'fact', 'factorial'}) else 'infty_val'
+        if key != want:
+            bad = (sorted(used), key or (short(v) if v is not None else 'unset'), want)
+            break
+    if bad:
+        r.violation(construct, "when the used functions are %s the cutoff is config[%r], the property needs config[%r]: %s"
+                    % (bad[0], bad[1], bad[2], 'factorials overflow long before the plain cutoff' if bad[2] == 'infty_val_fact'
+                       else 'sums without factorials are truncated at the small factorial cutoff'), lib.loc(fi, ps),
+                    expected="config['%s']" % bad[2], found=str(bad[1]))
+    else:
+        r.ok(construct, '7 Venn regions of the used-function set', lib.loc(fi, ps))
+
+
+def _closure(r, idx, fi, name):
+    q = fi.qualname + '.<locals>.' + name
+    if not idx.has_func(q):
+        raise AnalysisError('evaluate_sum: summand closure %s not found' % name)
+    cl = idx.func(q)
+    fn = cl.node
+    if len(cl.params) != 1:
+        raise AnalysisError('summand closure takes %d parameters' % len(cl.params))
+    x = cl.params[0]
+    where = cl.loc
+    stores = X.find_stmts(fn, "varscope[summation_var] = %s" % x)
+    construct = 'evaluate_sum: the summand sees the index through varscope[summation_var]'
+    if not stores:
+        others = [s for s in walk_own(fn) if isinstance(s, ast.Assign) and any(isinstance(t, ast.Subscript) and X.is_name(t.value, 'varscope') for t in s.targets)]
+        if others:
+            verdict(r, construct, nf.classify(X.spat("varscope[summation_var] = %s" % x), others[0]), lib.loc(cl, others[0]),
+                    expected='varscope[summation_var] = index')
+        else:
+            r.violation(construct, 'the closure never stores the index into varscope[summation_var]: every term is evaluated without (or with a '
+                        'stale) summation variable', where)
+        return
+    r.ok(construct, 'varscope[summation_var] = %s' % x, lib.loc(cl, stores[0][0]))
+    ev = [c for c in walk_own(fn) if isinstance(c, ast.Call) and nf.callee_name(c) == 'evaluator']
+    construct = 'evaluate_sum: the summand is evaluated with (varscope, funcscope, self.suffixes)'
+    if len(ev) != 1:
+        raise AnalysisError('summand closure: expected one evaluator call')
+    eparams = idx.func('mitxgraders.helpers.calc.expressions.evaluator').params
+    bound = dict(zip(eparams, ev[0].args))
+    for k in ev[0].keywords:
+        if k.arg is None:
+            raise AnalysisError('evaluator called with **kwargs')
+        bound[k.arg] = k.value
+    want = {'formula': 'summand_str', 'variables': 'varscope', 'functions': 'funcscope', 'suffixes': 'self.suffixes'}
+    probs = []
+    for role, src in want.items():
+        got = bound.get(role)
+        if got is None:
+            probs.append('%s is not passed (the default scope is used)' % role)
+        elif X.m(src, got) is None:
+            if any(X.m(o, got) is not None for o in want.values()) or isinstance(got, (ast.Dict, ast.Constant)):
+                probs.append('%s=%s instead of %s' % (role, short(got), src))
+            else:
+                raise AnalysisError('evaluator argument %s=%s not recognised' % (role, short(got)))
+    extra = set(bound) - set(want)
+    if extra:
+        raise AnalysisError('evaluator called with extra arguments %s' % sorted(extra))
+    r.check(not probs, construct, 'formula / variables / functions / suffixes in their roles', '; '.join(probs) +
+            ': the summand is evaluated in a different scope than the rest of the problem', lib.loc(cl, ev[0]),
+            expected='evaluator(summand_str, variables=varscope, functions=funcscope, suffixes=self.suffixes)')
+    r.check(X.dominates(cl, stores[0][0], ev[0]), 'evaluate_sum: the index is stored before the summand is evaluated', 'store dominates evaluator',
+            'the summand can be evaluated before the index is stored', lib.loc(cl, ev[0]))
+    # value returned = first element of the evaluator's result
+    construct = 'evaluate_sum: the closure returns the value of the summand'
+    rets = lib.returns_of(fn)
+    un = X.find_stmts(fn, "_V, _W = evaluator(*__)")
+    if len(rets) == 1 and un and isinstance(un[0][1]['_V'], ast.Name):
+        vname, wname = un[0][1]['_V'].id, un[0][1]['_W'].id if isinstance(un[0][1]['_W'], ast.Name) else None
+        if X.is_name(rets[0].value, vname):
+            r.ok(construct, 'first element of evaluator(...)', lib.loc(cl, rets[0]))
+        elif wname and X.is_name(rets[0].value, wname):
+            r.violation(construct, 'the closure returns the usage record (second element of evaluator(...)) instead of the value', lib.loc(cl, rets[0]))
+        else:
+            r.undecided(construct, 'returned value not recognised', lib.loc(cl, rets[0]))
+    elif len(rets) == 1 and X.m("evaluator(*__)[0]", rets[0].value) is not None:
+        r.ok(construct, 'evaluator(...)[0]', lib.loc(cl, rets[0]))
+    else:
+        r.undecided(construct, 'return not recognised', where)
+    # PAIR: the index is removed again on every normal exit
+    construct = 'evaluate_sum: the index is removed from the scope after every term'
+    dels = [s for s, _ in X.find_stmts(fn, "del varscope[summation_var]")] + \
+           [s for s, _ in X.find_stmts(fn, "varscope.pop(summation_var)")] + [s for s, _ in X.find_stmts(fn, "varscope.pop(summation_var, None)")]
+    cfg = cfg_of(fn)
+    if not dels:
+        r.violation(construct, "varscope[summation_var] is never deleted: the author's index stays in the scope, so the student's sum with the "
+                    "same variable name is refused as 'conflicts with another previously-defined variable'", where,
+                    expected='del varscope[summation_var]')
+    else:
+        starts = cfg.nodes_of(stores[0][0])
+        through = [n for d in dels for n in cfg.nodes_of(d)]
+        r.check(cfg.must_pass(starts, through, exits='return'), construct, 'every path from the store to a return passes the deletion',
+                'a path returns from the closure with the index still in varscope', lib.loc(cl, dels[0]))
 
 
 # ----------------------------------------------------------------------------- D3
-CALC_UNDEF = 'mitxgraders.helpers.calc.exceptions.UndefinedVariable'
+CALL_PATS = ["self.evaluate_sum(_W['summand'], _W['lower'], _W['upper'], _W['summation_variable'], varscope=_VS, funcscope=_FS)",
+             "self.evaluate_sum(_W['summand'], _W['upper'], _W['lower'], _W['summation_variable'], varscope=_VS, funcscope=_FS)",
+             "self.evaluate_sum(_W['summand'], _W['lower'], _W['upper'], _W['summation_variable'], _VS, _FS)"]
 
 
 def d3_author(ctx, idx):
-    r = ctx.rule('D3.AUTHOR', "gen_evaluations: author's sum with instructor variables, its library errors -> ConfigError; "
-                 "instructor variables deleted before every student's sum; results in (author, student, functions) order",
-                 floor=6)
+    r = ctx.rule('D3.AUTHOR', "gen_evaluations: author's sum guarded (MITxError -> ConfigError), student's not; instructor variables "
+                 "deleted in between and reloaded per sample; results in (author, student, functions) roles", floor=7)
     with r:
         fi = idx.func(SG + '.gen_evaluations')
+        fn = fi.node
         if fi.params[:5] != ['self', 'answer', 'student_input', 'var_samples', 'func_samples']:
             raise AnalysisError('gen_evaluations: signature changed: %s' % fi.params)
-        G = Groups(r, fi.loc)
-        KEYS = ('summand', 'lower', 'upper', 'summation_variable')
-
-        def run(author_fail=None, student_fail=None, fail_at=0, instructor=('secret', 'unused')):
-            it = Interp(idx, Model(), max_steps=50000)
-            A = {k: Sym('answer.' + k) for k in KEYS}
-            S = {k: Sym('student.' + k) for k in KEYS}
-            var_samples = [{'x': 1.0, 'secret': 5.0}, {'x': 2.0, 'secret': 6.0}]
-            func_samples = [{'f': Sym('f0')}, {'f': Sym('f1')}]
-            log = []
-            used = Sym('used-by-student')
-
-            def evaluate_sum(summand, lower, upper, var, varscope=None, funcscope=None):
-                who = 'author' if summand is A['summand'] else ('student' if summand is S['summand'] else '?')
-                src = A if who == 'author' else S
-                n = len([e for e in log if e[0] == who])
-                roles = summand is src['summand'] and var is src['summation_variable'] and \
-                    {id(lower), id(upper)} == {id(src['lower']), id(src['upper'])}
-                log.append((who, n, roles, dict(varscope) if isinstance(varscope, dict) else varscope,
-                            dict(funcscope) if isinstance(funcscope, dict) else funcscope))
-                if who == 'author' and author_fail and n == fail_at:
-                    raise Raised(author_fail, ['boom'])
-                if who == 'student' and student_fail and n == fail_at:
-                    raise Raised(student_fail, ['boom'])
-                return (Sym('%s-value-%d' % (who, n)), used if who == 'student' else Sym('used-by-author'))
-            self_obj = Obj(SG, fields={'config': {'instructor_vars': list(instructor), 'samples': 2},
-                                       'functions': {'sin': Sym('sin')}},
-                           stubs={'evaluate_sum': Native(evaluate_sum), 'log_eval_info': Native(lambda *a, **k: None)})
-            res = outcome(lambda: it.call_function(fi, [A, S, var_samples, func_samples], self_obj=self_obj))
-            return res, log, used, var_samples
-
-        res, log, used, var_samples = run()
-        authors = [e for e in log if e[0] == 'author']
-        students = [e for e in log if e[0] == 'student']
-        g = "gen_evaluations: the author's sum is evaluated once per sample with every sampled variable"
-        ok = res[0] == 'ret' and len(authors) == 2 and all(
-            e[2] and e[3] == var_samples[i] and e[4] is not None and e[4].get('f') is not None and e[4]['f'].name == 'f%d' % i
-            and 'sin' in e[4] for i, e in enumerate(authors))
-        G.case(g, ok, '2 samples of {x, secret}, instructor_vars=[secret, unused]',
-               "evaluate_sum(answer's summand, limits, variable) with scope {x, secret} of that sample and that sample's functions",
-               _show3(res, log))
-        g = "gen_evaluations: instructor variables are deleted before every student's sum"
-        ok = res[0] == 'ret' and len(students) == 2 and all(
-            e[2] and e[3] == {'x': var_samples[i]['x']} and e[4] is not None and e[4].get('f') is not None
-            and e[4]['f'].name == 'f%d' % i for i, e in enumerate(students))
-        G.case(g, ok, '2 samples of {x, secret}, instructor_vars=[secret, unused]',
-               "evaluate_sum(student's summand, limits, variable) with scope {x} of that sample", _show3(res, log))
-        g = "gen_evaluations: the author's sum precedes the student's in every sample"
-        order = [(e[0], e[1]) for e in log]
-        G.case(g, order == [('author', 0), ('student', 0), ('author', 1), ('student', 1)], '2 samples',
-               'author, student, author, student', str(order))
-        g = 'gen_evaluations: returns (author values, student values, functions used by the student)'
-        ok = res[0] == 'ret' and isinstance(res[1], tuple) and len(res[1]) == 3 \
-            and [getattr(x, 'name', None) for x in res[1][0]] == ['author-value-0', 'author-value-1'] \
-            and [getattr(x, 'name', None) for x in res[1][1]] == ['student-value-0', 'student-value-1'] \
-            and res[1][2] is used
-        G.case(g, ok, '2 samples', '([author-value-0, author-value-1], [student-value-0, student-value-1], used-by-student)',
-               _show(res))
-        g = "gen_evaluations: every library error in the author's sum becomes ConfigError"
-        for cls in ('SummationError', CALC_UNDEF, 'mitxgraders.helpers.calc.exceptions.CalcOverflowError',
-                    'mitxgraders.exceptions.InvalidInput', 'mitxgraders.exceptions.MITxError'):
-            for at in (0, 1):
-                res, log, used, _ = run(author_fail=cls, fail_at=at)
-                G.case(g, res == ('raise', 'ConfigError'), "author's sum raises %s in sample %d" % (_name(cls), at),
-                       'ConfigError', _show(res))
-        g = "gen_evaluations: errors of the student's sum are not recast"
-        for cls in ('SummationError', CALC_UNDEF, 'mitxgraders.exceptions.InvalidInput'):
-            for at in (0, 1):
-                res, log, used, _ = run(student_fail=cls, fail_at=at)
-                G.case(g, res == ('raise', _name(cls)), "student's sum raises %s in sample %d" % (_name(cls), at),
-                       _name(cls), _show(res))
-        G.flush({})
-
-
-def _show3(res, log):
-    if res[0] != 'ret':
-        return _show(res)
-    return '; '.join('%s sum %d with scope %s%s' % (e[0], e[1], sorted(e[3]) if isinstance(e[3], dict) else e[3],
-                                                   '' if e[2] else ' (argument roles differ)') for e in log)
+        calls = lib.calls_named(fn, 'evaluate_sum')
+        roles = {}
+        for c in calls:
+            b = X.any_match(CALL_PATS, c)
+            if b is None:
+                res = nf.classify(CALL_PATS[0], c)
+                if isinstance(res, tuple):
+                    r.violation('gen_evaluations: argument roles of evaluate_sum', res[1], lib.loc(fi, c), expected=CALL_PATS[0])
+                else:
+                    r.undecided('gen_evaluations: argument roles of evaluate_sum', 'call not recognised: %s' % short(c), lib.loc(fi, c))
+                continue
+            who = 'author' if X.is_name(b['_W'], 'answer') else ('student' if X.is_name(b['_W'], 'student_input') else None)
+            if who is None or who in roles:
+                raise AnalysisError('gen_evaluations: evaluate_sum call on %s' % short(b['_W']))
+            roles[who] = (c, b)
+        if set(roles) != {'author', 'student'}:
+            raise AnalysisError('gen_evaluations: author and student evaluate_sum calls not both found')
+        (ac, ab), (sc, sb) = roles['author'], roles['student']
+        r.ok('gen_evaluations: argument roles of evaluate_sum', "summand / limits / variable of the answer and of the submission", lib.loc(fi, ac))
+        same_scope = nf.equal(ab['_VS'], sb['_VS']) and isinstance(ab['_VS'], ast.Name) and nf.equal(ab['_FS'], sb['_FS'])
+        if not same_scope:
+            raise AnalysisError('gen_evaluations: the two calls use different scope objects')
+        VS = ab['_VS'].id
+        # ---- GUARD
+        construct = "gen_evaluations: the author's sum is guarded: MITxError -> ConfigError"
+        tr = lib.enclosing_try(ac)
+        if tr is None:
+            r.violation(construct, "the author's evaluate_sum call is not inside a try: errors in the stored answer reach the student as "
+                        "student-facing errors", lib.loc(fi, ac), expected='except MITxError: raise ConfigError')
+        else:
+            cover = [h for h in tr.handlers if any(n in ('MITxError', 'Exception', 'BaseException') for n in lib.handler_class_names(h))]
+            if not cover:
+                names = [n for h in tr.handlers for n in lib.handler_class_names(h)]
+                r.violation(construct, 'the handler covers only %s: other library errors of the stored answer (e.g. an undefined variable, '
+                            'CalcError) reach the student unchanged instead of ConfigError' % names, lib.loc(fi, tr),
+                            expected='except MITxError', found=', '.join(names))
+            else:
+                ok, classes = X.body_raises(cover[0].body)
+                if not ok and not classes:
+                    r.violation(construct, 'the handler does not raise on every path: a failing author sum is ignored', lib.loc(fi, cover[0]))
+                else:
+                    r.check(ok and classes == {'ConfigError'}, construct, 'raises ConfigError',
+                            "failures of the author's sum are reported as %s instead of ConfigError" % sorted(classes), lib.loc(fi, cover[0]),
+                            expected='ConfigError', found=', '.join(sorted(classes)))
+        construct = "gen_evaluations: the student's sum is not recast"
+        str_ = lib.enclosing_try(sc)
+        r.check(str_ is None, construct, 'outside any try', "the student's evaluate_sum call sits inside a try (`except %s`): the student's own "
+                "errors are turned into something else" % (', '.join(n for h in str_.handlers for n in lib.handler_class_names(h)) if str_ else ''),
+                lib.loc(fi, sc))
+        # ---- deletion between the calls
+        construct = "gen_evaluations: instructor variables are deleted before the student's sum"
+        dels = [s for s in walk_own(fn) if (isinstance(s, ast.Delete) and any(isinstance(t, ast.Subscript) and X.is_name(t.value, VS) for t in s.targets))
+                or (isinstance(s, ast.Expr) and isinstance(s.value, ast.Call) and isinstance(s.value.func, ast.Attribute)
+                    and s.value.func.attr == 'pop' and X.is_name(s.value.func.value, VS))]
+        if not dels:
+            r.violation(construct, 'nothing is ever removed from `%s`: the student\'s summand and limits can use the instructor-only variables' % VS,
+                        lib.loc(fi, sc), expected='for key in var_blacklist: del varlist[key]')
+        else:
+            loop = X.enclosing_loop(dels[0])
+            src_ok = False
+            bl = None
+            if isinstance(loop, ast.For) and isinstance(loop.iter, ast.Name):
+                bl = loop.iter.id
+                for f in walk_own(fn):
+                    if isinstance(f, ast.For) and lib.is_config(f.iter, 'instructor_vars') and isinstance(f.target, ast.Name):
+                        if X.find_stmts(f, "%s.append(%s)" % (bl, f.target.id), own=False):
+                            src_ok = True
+            elif isinstance(loop, ast.For) and lib.is_config(loop.iter, 'instructor_vars'):
+                src_ok = True
+            between = X.passes_between(fi, ac, [loop if isinstance(loop, ast.For) and loop is not X.enclosing_loop(ac) else dels[0]], sc)
+            r.check(between, construct, 'every path from the author\'s call to the student\'s passes the deletion',
+                    "a path reaches the student's evaluate_sum without deleting the instructor variables", lib.loc(fi, dels[0]))
+            if src_ok:
+                r.ok("gen_evaluations: the deleted names come from config['instructor_vars']", bl or 'instructor_vars', lib.loc(fi, dels[0]))
+            else:
+                r.undecided("gen_evaluations: the deleted names come from config['instructor_vars']", 'origin of the deleted keys not recognised',
+                            lib.loc(fi, dels[0]))
+        # ---- reload per sample
+        construct = "gen_evaluations: every sample is loaded into the scope before the author's sum"
+        loads = [s for s, b in X.find_stmts(fn, "%s.update(var_samples[_I])" % VS)]
+        main = X.enclosing_loop(ac)
+        if main is None:
+            raise AnalysisError('gen_evaluations: the evaluations are not inside a loop over the samples')
+        if not loads:
+            r.violation(construct, '`%s` is never updated with var_samples[i]: the sums are evaluated without the sampled variables' % VS,
+                        lib.loc(fi, main), expected='%s.update(var_samples[i])' % VS)
+        else:
+            first = X.dominates(fi, loads, ac)
+            again = X.passes_between(fi, sc, loads, ac)
+            r.check(first and again, construct, 'dominates the first author call and separates a student call from the next author call',
+                    "the author's sum of %s can run without the sample being loaded (instructor variables deleted for the "
+                    "previous student's sum are still missing)" % ('the next sample' if first else 'a sample'), lib.loc(fi, loads[0]))
+        # ---- results
+        a_un = X.find_stmts(fn, "_A, _X = self.evaluate_sum(*__)")
+        a_name = s_name = f_name = None
+        for st, b in a_un:
+            if X.in_subtree(ac, st) and isinstance(b['_A'], ast.Name):
+                a_name = b['_A'].id
+            if X.in_subtree(sc, st) and isinstance(b['_A'], ast.Name):
+                s_name = b['_A'].id
+                f_name = b['_X'].id if isinstance(b['_X'], ast.Name) else None
+        if not (a_name and s_name and f_name):
+            raise AnalysisError('gen_evaluations: results of the evaluate_sum calls are not bound to names')
+        construct = 'gen_evaluations: values are stored and returned as (author values, student values, used functions)'
+        a_app = X.find_stmts(fn, "_LIST.append(%s)" % a_name)
+        s_app = X.find_stmts(fn, "_LIST.append(%s)" % s_name)
+        rets = lib.returns_of(fn)
+        if len(rets) != 1 or not isinstance(rets[0].value, ast.Tuple) or len(rets[0].value.elts) != 3:
+            raise AnalysisError('gen_evaluations: return value is not a 3-tuple')
+        e0, e1, e2 = rets[0].value.elts
+        a_lists = {b['_LIST'].id for _, b in a_app if isinstance(b['_LIST'], ast.Name)}
+        s_lists = {b['_LIST'].id for _, b in s_app if isinstance(b['_LIST'], ast.Name)}
+        problems = []
+        if not a_lists:
+            problems.append("the author's value `%s` is never appended to a result list" % a_name)
+        elif not (isinstance(e0, ast.Name) and e0.id in a_lists and e0.id not in s_lists):
+            problems.append("the first returned list `%s` is not the one holding the author's values" % short(e0))
+        if not s_lists:
+            problems.append("the student's value `%s` is never appended to a result list" % s_name)
+        elif not (isinstance(e1, ast.Name) and e1.id in s_lists and e1.id not in a_lists):
+            problems.append("the second returned list `%s` is not the one holding the student's values" % short(e1))
+        if not X.is_name(e2, f_name):
+            problems.append("the third returned value `%s` is not the set of functions used by the student" % short(e2))
+        r.check(not problems, construct, 'append/return roles agree', '; '.join(problems) +
+                ': compare_evaluations would measure the tolerance relative to the wrong side / restrictions apply to the wrong functions',
+                lib.loc(fi, rets[0]))
+        for lst_stmt, _ in a_app + s_app:
+            if not X.in_subtree(lst_stmt, main):
+                r.violation(construct, '`%s` is outside the loop over the samples: only the last sample is compared' % short(lst_stmt), lib.loc(fi, lst_stmt))
 
 
 # ----------------------------------------------------------------------------- D4
 def d4_order(ctx, idx):
-    r = ctx.rule('D4.ORDER', 'check(): wrong input count (ConfigError), blank fields (MissingInput) and unusable dummy '
-                 'variables (InvalidInput) are refused before check_math_response; input positions map as documented',
-                 floor=9)
+    r = ctx.rule('D4.ORDER', 'check(): count check (ConfigError) < blank fields (MissingInput) < dummy-variable validation '
+                 '(InvalidInput) < check_math_response; normal forms of the helper predicates', floor=23)
     with r:
         fi = idx.func(SB + '.check')
+        fn = fi.node
         if fi.params[:3] != ['self', 'answers', 'student_input']:
             raise AnalysisError('check: signature changed: %s' % fi.params)
-        G = Groups(r, fi.loc)
-        ANS = {'lower': 'a', 'upper': 'b', 'summand': 'c', 'summation_variable': 'm'}
-        FULL = {'lower': 0, 'upper': 1, 'summand': 2, 'summation_variable': 3}
-
-        def run(student_input, positions=FULL, answers=None, cmr_fail=None):
-            it = Interp(idx, Model(), max_steps=50000)
-            log = []
-            RESULT = Sym('RESULT')
-
-            def cmr(ans, structured, **kw):
-                log.append((ans, dict(structured) if isinstance(structured, dict) else structured))
-                if cmr_fail:
-                    raise Raised(cmr_fail, ['quad failed'])
-                return RESULT
-            self_obj = Obj(SG, fields={'config': {'answers': dict(ANS)}, 'true_input_positions': dict(positions),
-                                       'functions': {'sin': Sym('sin')}, 'random_funcs': {'f': Sym('f')},
-                                       'constants': {'pi': 3.14, 'i': 1j}},
-                           stubs={'check_math_response': Native(cmr)})
-            res = outcome(lambda: it.call_function(fi, [answers, student_input], self_obj=self_obj))
-            return res, log, RESULT
-
-        g = 'check: complete, well-formed input reaches check_math_response as a dict keyed by role'
-        for inp, pos, want in (
-                (['1', '5', 'k^2', 'k'], FULL, {'lower': '1', 'upper': '5', 'summand': 'k^2', 'summation_variable': 'k'}),
-                (['k^2', 'k', '1', '5'], {'lower': 2, 'upper': 3, 'summand': 0, 'summation_variable': 1},
-                 {'lower': '1', 'upper': '5', 'summand': 'k^2', 'summation_variable': 'k'}),
-                ('m^2', {'lower': None, 'upper': None, 'summand': 0, 'summation_variable': None},
-                 {'lower': 'a', 'upper': 'b', 'summand': 'm^2', 'summation_variable': 'm'}),
-                (['m^2', '9'], {'lower': None, 'upper': 1, 'summand': 0, 'summation_variable': None},
-                 {'lower': 'a', 'upper': '9', 'summand': 'm^2', 'summation_variable': 'm'})):
-            res, log, RESULT = run(inp, pos)
-            ok = res[0] == 'ret' and res[1] is RESULT and len(log) == 1 and log[0][0] == ANS and log[0][1] == want
-            G.case(g, ok, 'inputs %r at positions %s' % (inp, _pos(pos)), 'check_math_response(config answers, %s)' % want,
-                   _show4(res, log))
-        OTHER = {'lower': '0', 'upper': '1', 'summand': 'z', 'summation_variable': 'z'}
-        res, log, RESULT = run(['1', '5', 'k^2', 'k'], FULL, answers=OTHER)
-        G.case(g, res[0] == 'ret' and len(log) == 1 and log[0][0] == OTHER, 'answers passed explicitly',
-               'check_math_response(the given answers, ...)', _show4(res, log))
-        g = 'check: a wrong number of inputs raises ConfigError before anything else'
-        for inp in (['1', '5', 'k^2'], ['1', '5', 'k^2', 'k', 'extra'], ['', '5'], 'k^2', []):
-            res, log, _ = run(inp)
-            G.case(g, res == ('raise', 'ConfigError') and not log, 'inputs %r, four expected' % (inp,), 'ConfigError',
-                   _show4(res, log))
-        g = 'check: a blank field raises MissingInput before grading'
-        for inp in (['', '5', 'k^2', 'k'], ['1', '', 'k^2', 'k'], ['1', '5', '', 'k'], ['1', '5', 'k^2', ''], ['', '', '', '']):
-            res, log, _ = run(inp)
-            G.case(g, res == ('raise', 'MissingInput') and not log, 'inputs %r' % (inp,), 'MissingInput', _show4(res, log))
-        g = 'check: a dummy variable that already has a meaning raises InvalidInput before grading'
-        for v in ('pi', 'i', 'sin', 'f'):
-            res, log, _ = run(['1', '5', 'k^2', v])
-            G.case(g, res == ('raise', 'InvalidInput') and not log, 'summation variable %r (a constant/function of the problem)' % v,
-                   'InvalidInput', _show4(res, log))
-        g = 'check: an ill-formed dummy variable name raises InvalidInput before grading'
-        for v in ('_x', '2x', "x''y", 'a b', 'x-y'):
-            res, log, _ = run(['1', '5', 'k^2', v])
-            G.case(g, res == ('raise', 'InvalidInput') and not log, 'summation variable %r' % v, 'InvalidInput', _show4(res, log))
-        res, log, _ = run(['1', '5', 'k^2', "'"])
-        if res == ('raise', 'IndexError'):
-            r.note("by-catch: a dummy variable consisting only of single quotes makes is_valid_variable_name raise IndexError "
-                   "(front[0] of an empty string); the student sees the generic 'Could not check input' error instead of "
-                   "InvalidInput. Still student-facing, so not counted against C19.")
-        g = 'check: well-formed dummy variable names are accepted'
-        for v in ('k', 'n_1', "x'", "cat''", 'Km2'):
-            res, log, _ = run(['1', '5', 'k^2', v])
-            G.case(g, res[0] == 'ret' and len(log) == 1, 'summation variable %r' % v, 'graded', _show4(res, log))
-        g = 'check: IntegrationError from the computation stays an IntegrationError'
-        res, log, _ = run(['1', '5', 'k^2', 'k'], cmr_fail='IntegrationError')
-        G.case(g, res == ('raise', 'IntegrationError'), 'check_math_response raises IntegrationError', 'IntegrationError', _show4(res, log))
-        res, log, _ = run(['1', '5', 'k^2', 'k'], cmr_fail='SummationError')
-        G.case(g, res == ('raise', 'SummationError'), 'check_math_response raises SummationError', 'SummationError', _show4(res, log))
-        G.flush({})
-
-        # validate_input_positions (static) and its use in the constructor
-        vp = idx.func(SB + '.validate_input_positions')
-        G2 = Groups(r, vp.loc)
-        g = 'validate_input_positions: consecutive positions from 1 are turned into 0-based indices'
-        K = ('lower', 'upper', 'summand', 'summation_variable')
-        for vals in ((1, 2, 3, 4), (3, 4, 1, 2), (None, None, 1, None), (2, None, 1, None), (None, 1, 2, 3)):
-            d = dict(zip(K, vals))
-            res = outcome(lambda: Interp(idx).call_function(vp, [dict(d)]))
-            want = {k: (v - 1 if v is not None else None) for k, v in d.items()}
-            G2.case(g, res == ('ret', want), 'input_positions=%s' % _pos(d), str(want), _show(res))
-        g = 'validate_input_positions: repeated or non-consecutive positions raise ConfigError'
-        for vals in ((1, 1, 2, 3), (1, 2, 2, None), (2, 3, 4, 5), (1, 3, None, None), (None, None, 2, None), (1, 2, 4, None)):
-            d = dict(zip(K, vals))
-            res = outcome(lambda: Interp(idx).call_function(vp, [dict(d)]))
-            G2.case(g, res == ('raise', 'ConfigError'), 'input_positions=%s' % _pos(d), 'ConfigError', _show(res))
-        G2.flush({})
-        init = idx.func(SB + '.__init__')
-        hits = nf.find_all(nf.pat("self.true_input_positions = self.validate_input_positions(self.config['input_positions'])",
-                                  mode='exec')[0], init.node)
-        r.check(bool(hits), 'SummationGraderBase.__init__: true_input_positions', 'validated 0-based positions are stored',
-                "the constructor no longer stores validate_input_positions(config['input_positions']) in true_input_positions",
-                init.loc)
+        c1 = lib.one_call(fi, 'structure_and_validate_input')
+        c4 = lib.one_call(fi, 'check_math_response')
+        c3s = lib.calls_named(fn, 'validate_user_dummy_variable')
+        st1 = lib.enclosing_stmt(c1)
+        if not (isinstance(st1, ast.Assign) and len(st1.targets) == 1 and isinstance(st1.targets[0], ast.Name)):
+            raise AnalysisError('check: result of structure_and_validate_input is not bound to a name')
+        SI = st1.targets[0].id
+        r.check(X.m("self.structure_and_validate_input(student_input)", c1) is not None and X.dominates(fi, c1, c4),
+                'check: the input count is validated before grading', 'structure_and_validate_input(student_input) dominates check_math_response',
+                'check_math_response can run without structure_and_validate_input(student_input)', lib.loc(fi, c1))
+        # blank loop
+        construct = 'check: blank fields raise MissingInput before grading'
+        loops = [l for l in walk_own(fn) if isinstance(l, ast.For) and X.mentions(l.iter, SI)]
+        blank = None
+        for l in loops:
+            for s in ast.walk(l):
+                if isinstance(s, ast.If) and any(isinstance(x, ast.Raise) for x in ast.walk(s)):
+                    blank = (l, s)
+        if blank is None:
+            r.violation(construct, 'no loop over the structured input raises for empty fields: a blank limit or summand reaches the parser and '
+                        'a blank variable name crashes is_valid_variable_name', fi.loc, expected="if structured_input[key] == '': raise MissingInput")
+        else:
+            l, s = blank
+            elem = _element_exprs(l, SI)
+            t = nf.canon(s.test)
+            kind = None
+            if isinstance(t, ast.Compare) and len(t.ops) == 1 and isinstance(t.ops[0], (ast.Eq, ast.Is)) and \
+                    any(nf.equal(t.left, e) for e in elem) and isinstance(t.comparators[0], ast.Constant):
+                kind = 'ok' if (t.comparators[0].value == '' and isinstance(t.ops[0], ast.Eq)) else 'const'
+            elif isinstance(t, ast.UnaryOp) and isinstance(t.op, ast.Not) and any(nf.equal(t.operand, e) for e in elem):
+                kind = 'ok'
+            elif isinstance(t, ast.Compare) and len(t.ops) == 1 and isinstance(t.ops[0], (ast.NotEq, ast.IsNot)) and \
+                    any(nf.equal(t.left, e) for e in elem) and isinstance(t.comparators[0], ast.Constant) and t.comparators[0].value == '':
+                kind = 'inverted'
+            if kind == 'ok':
+                r.ok(construct + ' [test]', short(s.test), lib.loc(fi, s))
+            elif kind == 'const':
+                r.violation(construct + ' [test]', "the field is compared with %r instead of '': edX sends blank fields as empty strings, so they are "
+                            "no longer refused" % (t.comparators[0].value,), lib.loc(fi, s), expected="== ''", found=short(s.test))
+            elif kind == 'inverted':
+                r.violation(construct + ' [test]', 'the test is inverted: every filled field raises', lib.loc(fi, s), expected="== ''", found=short(s.test))
+            else:
+                r.undecided(construct + ' [test]', 'blank test not recognised: %s' % short(s.test), lib.loc(fi, s))
+            ok, classes = X.body_raises(s.body)
+            r.check(ok and classes == {'MissingInput'}, construct + ' [class]', 'raises MissingInput',
+                    'blank fields raise %s instead of MissingInput' % (sorted(classes) or 'nothing'), lib.loc(fi, s), expected='MissingInput')
+            exits = [e for e in lib.loop_has_early_exit(l) if not isinstance(e, ast.Raise)]
+            r.check(not exits, construct + ' [every field]', 'the loop visits every field', 'the loop over the fields can stop early (`%s`)' %
+                    (short(exits[0]) if exits else ''), lib.loc(fi, l))
+            r.check(X.dominates(fi, l, c4), construct + ' [before grading]', 'dominates check_math_response',
+                    'check_math_response can run before the blank-field check', lib.loc(fi, l))
+        # dummy variable
+        construct = 'check: the dummy variable is validated before grading'
+        if not c3s:
+            r.violation(construct, 'validate_user_dummy_variable is never called: a summation variable that already has a meaning (pi, a function '
+                        'name) or is ill-formed is accepted', fi.loc)
+        else:
+            c3 = c3s[0]
+            argok = X.m("self.validate_user_dummy_variable(%s[self.wording['adjective'] + '_variable'])" % SI, c3) is not None
+            r.check(argok and X.dominates(fi, c3, c4), construct, 'dominates check_math_response',
+                    'check_math_response can run before/without validate_user_dummy_variable(<entered variable>)', lib.loc(fi, c3))
+            if blank is not None:
+                r.check(X.dominates(fi, blank[0], c3), 'check: blank fields are refused before the dummy-variable validation',
+                        'blank loop dominates validate_user_dummy_variable',
+                        "validate_user_dummy_variable runs before the blank-field check: a blank variable name makes is_valid_variable_name "
+                        "fail with IndexError (front[0] of '') instead of MissingInput", lib.loc(fi, c3))
+        _helpers(r, idx)
 
 
-def _pos(d):
-    return '{%s}' % ', '.join('%s: %s' % (k, d[k]) for k in ('lower', 'upper', 'summand', 'summation_variable') if k in d)
+def _element_exprs(loop, SI):
+    """Expressions denoting the current field inside a loop over the structured input."""
+    out = []
+    if isinstance(loop.target, ast.Name) and X.is_name(loop.iter, SI):
+        out.append(nf.pat("%s[%s]" % (SI, loop.target.id)))
+    if isinstance(loop.iter, ast.Call) and isinstance(loop.iter.func, ast.Attribute) and X.is_name(loop.iter.func.value, SI):
+        if loop.iter.func.attr == 'items' and isinstance(loop.target, ast.Tuple) and len(loop.target.elts) == 2 \
+                and all(isinstance(e, ast.Name) for e in loop.target.elts):
+            out.append(nf.pat(loop.target.elts[1].id))
+            out.append(nf.pat("%s[%s]" % (SI, loop.target.elts[0].id)))
+        if loop.iter.func.attr == 'values' and isinstance(loop.target, ast.Name):
+            out.append(nf.pat(loop.target.id))
+        if loop.iter.func.attr == 'keys' and isinstance(loop.target, ast.Name):
+            out.append(nf.pat("%s[%s]" % (SI, loop.target.id)))
+    return out
 
 
-def _show4(res, log):
-    text = _show(res)
-    if log:
-        text += ' after check_math_response(%s, %s)' % (log[0][0], log[0][1])
-    return text
+def _helpers(r, idx):
+    # structure_and_validate_input
+    fi = idx.func(SB + '.structure_and_validate_input')
+    fn = fi.node
+    construct = 'structure_and_validate_input: a wrong number of inputs raises ConfigError'
+    ifs = [s for s in walk_own(fn) if isinstance(s, ast.If) and X.mentions(s.test, 'student_input')]
+    tcall = lib.calls_named(fn, 'transform_list_to_dict')
+    if not ifs:
+        r.violation(construct, 'the number of inputs is never compared with the number of expected fields: a missing box leads to IndexError',
+                    fi.loc, expected='len(used_inputs) != len(student_input)')
+    else:
+        st = ifs[0]
+        res = nf.classify("len(_UI) != len(student_input)", st.test)
+        verdict(r, construct, res, lib.loc(fi, st), short(st.test), expected='len(used_inputs) != len(student_input)',
+                why='both too few and too many inputs must be refused (too few would index past the list)')
+        ok, classes = X.body_raises(st.body)
+        r.check(ok and classes == {'ConfigError'}, construct + ' [class]', 'ConfigError', 'raises %s' % (sorted(classes) or 'nothing'), lib.loc(fi, st))
+        if tcall:
+            r.check(X.dominates(fi, st, tcall[0]), construct + ' [before structuring]', 'dominates transform_list_to_dict',
+                    'the inputs are indexed before the count is checked', lib.loc(fi, st))
+    if tcall:
+        verdict(r, 'structure_and_validate_input: inputs are mapped with the validated positions',
+                nf.classify("transform_list_to_dict(student_input, self.config['answers'], self.true_input_positions)", tcall[0]),
+                lib.loc(fi, tcall[0]), expected="transform_list_to_dict(student_input, self.config['answers'], self.true_input_positions)")
+    ui = X.find_stmts(fn, "_UI = [_K for _K in self.true_input_positions if self.true_input_positions[_K] is not None]")
+    if ui:
+        r.ok('structure_and_validate_input: expected fields = positions that are not None', '', lib.loc(fi, ui[0][0]))
+    else:
+        r.undecided('structure_and_validate_input: expected fields = positions that are not None', 'definition of the expected fields not recognised', fi.loc)
+    # transform_list_to_dict
+    fi = idx.func('mitxgraders.formulagrader.integralgrader.transform_list_to_dict')
+    rets = lib.returns_of(fi.node)
+    pat_t = "{_K: thelist[key_to_index_map[_K]] if key_to_index_map[_K] is not None else thedefaults[_K] for _K in key_to_index_map}"
+    if len(rets) == 1:
+        verdict(r, 'transform_list_to_dict: entered value where a position is given, the author\'s default otherwise',
+                nf.classify(pat_t, lib.inline_locals(rets[0].value, fi.node)), lib.loc(fi, rets[0]), expected=pat_t)
+    else:
+        r.undecided('transform_list_to_dict', 'return not recognised', fi.loc)
+    # validate_user_dummy_variable
+    fi = idx.func(SB + '.validate_user_dummy_variable')
+    ifs = [s for s in walk_own(fi.node) if isinstance(s, ast.If)]
+    taken = [s for s in ifs if any(isinstance(c, ast.Compare) and isinstance(c.ops[0], ast.In) for c in ast.walk(s.test))]
+    construct = 'validate_user_dummy_variable: a name that already has a meaning raises InvalidInput'
+    if not taken:
+        r.violation(construct, 'no membership test exists: functions and constants can be used as summation variable', fi.loc)
+    else:
+        st = taken[0]
+        verdict(r, construct, nf.classify("varname in self.functions or varname in self.random_funcs or varname in self.constants", st.test),
+                lib.loc(fi, st), '3 scopes', expected='varname in self.functions or varname in self.random_funcs or varname in self.constants',
+                why='a name from the dropped scope is accepted as dummy variable and shadows/deletes that meaning')
+        ok, classes = X.body_raises(st.body)
+        r.check(ok and classes == {'InvalidInput'}, construct + ' [class]', 'InvalidInput', 'raises %s' % (sorted(classes) or 'nothing'), lib.loc(fi, st))
+    wf = [s for s in ifs if any(isinstance(c, ast.Call) and nf.callee_name(c) == 'is_valid_variable_name' for c in ast.walk(s.test))]
+    construct = 'validate_user_dummy_variable: an ill-formed name raises InvalidInput'
+    if not wf:
+        r.violation(construct, 'is_valid_variable_name is never consulted', fi.loc)
+    else:
+        st = wf[0]
+        verdict(r, construct, nf.classify("not is_valid_variable_name(varname)", st.test), lib.loc(fi, st), expected='not is_valid_variable_name(varname)')
+        ok, classes = X.body_raises(st.body)
+        r.check(ok and classes == {'InvalidInput'}, construct + ' [class]', 'InvalidInput', 'raises %s' % (sorted(classes) or 'nothing'), lib.loc(fi, st))
+    # validate_input_positions
+    fi = idx.func(SB + '.validate_input_positions')
+    fn = fi.node
+    lst = X.find_stmts(fn, "_L = [input_positions[_K] for _K in input_positions if input_positions[_K] is not None]")
+    if len(lst) != 1 or not isinstance(lst[0][1]['_L'], ast.Name):
+        raise AnalysisError('validate_input_positions: list of used positions not recognised')
+    Ln = lst[0][1]['_L'].id
+    sets = X.find_stmts(fn, "_S = set(%s)" % Ln)
+    if len(sets) != 1 or not isinstance(sets[0][1]['_S'], ast.Name):
+        raise AnalysisError('validate_input_positions: set of used positions not recognised')
+    Sn = sets[0][1]['_S'].id
+    ifs = [s for s in walk_own(fn) if isinstance(s, ast.If)]
+    consec = [s for s in ifs if any(isinstance(c, ast.Call) and nf.callee_name(c) == 'range' for c in ast.walk(s.test))]
+    construct = 'validate_input_positions: positions must be 1..n without gaps'
+    set_based = False
+    if not consec:
+        r.violation(construct, 'no test against range(1, n+1) exists: positions with gaps index past the list of inputs', fi.loc)
+    else:
+        st = consec[0]
+        t = nf.canon(st.test)
+        rc = [c for c in ast.walk(t) if isinstance(c, ast.Call) and nf.callee_name(c) == 'range'][0]
+        start = rc.args[0] if len(rc.args) >= 2 else ast.Constant(value=0)
+        stop = rc.args[1] if len(rc.args) >= 2 else (rc.args[0] if rc.args else None)
+        whole = X.m("%s != set(range(_A, _B))" % Sn, t) is not None or X.m("%s != set(range(_B))" % Sn, t) is not None
+        if not whole or stop is None or len(rc.args) > 2:
+            r.undecided(construct, 'test not recognised: %s' % short(st.test), lib.loc(fi, st))
+        else:
+            set_based = True
+            sok = isinstance(start, ast.Constant) and start.value == 1
+            eres = nf.classify(["len(%s) + 1" % Sn, "len(%s) + 1" % Ln], stop)
+            if sok and eres == nf.MATCH:
+                r.ok(construct, short(st.test), lib.loc(fi, st))
+            else:
+                r.violation(construct, 'the reference set is `%s`, not range(1, n + 1): %s' % (
+                    short(rc), 'positions are compared with 0..n-1, so the documented 1-based positions are rejected' if not sok
+                    else 'the last position is not part of the reference set'), lib.loc(fi, st), expected='set(range(1, len(used) + 1))', found=short(rc))
+            ok, classes = X.body_raises(st.body)
+            r.check(ok and classes == {'ConfigError'}, construct + ' [class]', 'ConfigError', 'raises %s' % (sorted(classes) or 'nothing'), lib.loc(fi, st))
+    construct = 'validate_input_positions: repeated positions raise ConfigError'
+    dup = [s for s in ifs if X.mentions(s.test, Ln) and X.mentions(s.test, Sn) and s not in consec]
+    if not dup:
+        if set_based:
+            r.violation(construct, 'no comparison of the number of positions with the number of distinct positions exists (the set-based gap test '
+                        'cannot see duplicates): two fields read the same input box', fi.loc, expected='len(list) > len(set)')
+        else:
+            r.undecided(construct, 'duplicate test not found', fi.loc)
+    else:
+        st = dup[0]
+        verdict(r, construct, nf.classify(["len(%s) < len(%s)" % (Sn, Ln), "len(%s) != len(%s)" % (Sn, Ln)], st.test), lib.loc(fi, st),
+                expected='len(list) > len(set)')
+        ok, classes = X.body_raises(st.body)
+        r.check(ok and classes == {'ConfigError'}, construct + ' [class]', 'ConfigError', 'raises %s' % (sorted(classes) or 'nothing'), lib.loc(fi, st))
+    rets = lib.returns_of(fn)
+    pat_r = "{_K: input_positions[_K] - 1 if input_positions[_K] is not None else None for _K in input_positions}"
+    if len(rets) == 1:
+        verdict(r, 'validate_input_positions: 1-based positions become 0-based indices', nf.classify(pat_r, rets[0].value), lib.loc(fi, rets[0]),
+                expected=pat_r, why='positions are used as list indices by transform_list_to_dict')
+    else:
+        r.undecided('validate_input_positions: return', 'not recognised', fi.loc)
+    init = idx.func(SB + '.__init__')
+    hits = X.find_stmts(init.node, "self.true_input_positions = self.validate_input_positions(self.config['input_positions'])")
+    r.check(bool(hits), 'SummationGraderBase.__init__: true_input_positions', 'validated 0-based positions are stored',
+            "the constructor no longer stores validate_input_positions(config['input_positions']) in true_input_positions", init.loc)
 
 
 # ------------------------------------------------------------------------ self-test
 MUTANTS = [
     Mutant('upper-not-inclusive', IG, "range(int(lower), int(upper + 1), delta)", "range(int(lower), int(upper), delta)", 'D1'),
     Mutant('swap-removed', IG, "        if lower > upper:\n            lower, upper = upper, lower\n", "", 'D1'),
+    Mutant('swap-inverted', IG, "        if lower > upper:\n            lower, upper = upper, lower\n", "        if lower < upper:\n            lower, upper = upper, lower\n", 'D1'),
     Mutant('parity-odd-test', IG, "            if abs(lower % 2) != 1:", "            if abs(lower % 2) != 0:", 'D1'),
     Mutant('parity-even-step-back', IG, "            if abs(lower % 2) != 0:\n                lower += 1", "            if abs(lower % 2) != 0:\n                lower -= 1", 'D1'),
     Mutant('odd-step-one', IG, "            # Odd numbers only\n            delta = 2", "            # Odd numbers only\n            delta = 1", 'D1'),
@@ -551,6 +1159,13 @@ MUTANTS = [
     Mutant('inf-inf-returns', IG, "            raise SummationError('Cannot sum from infty to infty.')", "            return 0", 'D1'),
     Mutant('first-term-dropped', IG, "range(int(lower), int(upper + 1), delta)", "range(int(lower) + delta, int(upper + 1), delta)", 'D1'),
     Mutant('odd-even-exchanged', IG, "        if even_odd == 1:\n            # Odd numbers only", "        if even_odd == 2:\n            # Odd numbers only", 'D1'),
+    Mutant('minus-inf-not-replaced', IG, "        # Handle infinities\n        if lower == -float('inf'):\n            lower = -infty_val\n",
+           "        # Handle infinities\n", 'D1'),
+    Mutant('limits-clamped', IG, "        if lower == -float('inf'):\n            lower = -infty_val\n        if upper == float('inf'):\n            upper = infty_val\n",
+           "        lower = max(lower, -infty_val)\n        upper = min(upper, infty_val)\n", 'D1'),
+    Mutant('parity-closed-form-truncating', IG, "            if abs(lower % 2) != 1:\n                lower += 1", "            lower = 2 * int(lower / 2) + 1", 'D1'),
+    Mutant('evaluations-filtered', IG, "evals = [eval_summand(n) for n in range(int(lower), int(upper + 1), delta)]",
+           "evals = [eval_summand(n) for n in range(int(lower), int(upper + 1), delta) if n]", 'D1'),
     Mutant('always-fact-cutoff', IG, "            infty_val = self.config['infty_val']", "            infty_val = self.config['infty_val_fact']", 'D2'),
     Mutant('factorial-alias-forgotten', IG, "        if 'fact' in used_funcs or 'factorial' in used_funcs:", "        if 'fact' in used_funcs:", 'D2'),
     Mutant('cutoffs-exchanged', IG, "        if 'fact' in used_funcs or 'factorial' in used_funcs:", "        if not ('fact' in used_funcs or 'factorial' in used_funcs):", 'D2'),
@@ -559,11 +1174,14 @@ MUTANTS = [
     Mutant('complex-upper-unchecked', IG, "        if isinstance(lower, complex) or isinstance(upper, complex):\n            raise SummationError(",
            "        if isinstance(lower, complex):\n            raise SummationError(", 'D2'),
     Mutant('scope-conflict-unchecked', IG, "        if summation_var in varscope:\n            msg = 'Summation variable {} conflicts with another previously-defined variable.'\n            raise SummationError(msg.format(summation_var))\n", "", 'D2'),
+    Mutant('scope-conflict-inverted', IG, "        if summation_var in varscope:", "        if summation_var not in varscope:", 'D2'),
     Mutant('limit-error-class', IG, "            raise SummationError('Upper summation limit does not evaluate to an integer.')",
            "            raise ValueError('Upper summation limit does not evaluate to an integer.')", 'D2'),
     Mutant('index-left-in-scope', IG, "            del varscope[summation_var]\n            return value", "            return value", 'D2'),
     Mutant('even-odd-ignored', IG, "self.perform_summation(eval_summand, lower, upper, self.config['even_odd'], infty_val)",
            "self.perform_summation(eval_summand, lower, upper, 0, infty_val)", 'D2'),
+    Mutant('summand-without-functions', IG, "            value, _ = evaluator(summand_str,\n                                 variables=varscope,\n                                 functions=funcscope,",
+           "            value, _ = evaluator(summand_str,\n                                 variables=varscope,\n                                 functions=varscope,", 'D2'),
     Mutant('author-handler-narrowed', IG, "            except MITxError as error:", "            except SummationError as error:", 'D3'),
     Mutant('author-error-class', IG, "                msg = \"Summation Error with author's stored answer: {}\"\n                raise ConfigError(msg.format(str(error)))",
            "                msg = \"Summation Error with author's stored answer: {}\"\n                raise SummationError(msg.format(str(error)))", 'D3'),
@@ -585,12 +1203,17 @@ MUTANTS = [
     Mutant('constant-as-dummy-allowed', IG, "        if varname in self.functions or varname in self.random_funcs or varname in self.constants:",
            "        if varname in self.functions or varname in self.random_funcs:", 'D4'),
     Mutant('repeated-positions-allowed', IG, "        if len(used_positions_list) > len(used_positions_set):\n            raise ConfigError(\"Key input_positions has repeated indices.\")\n", "", 'D4'),
+    Mutant('blank-check-removed', IG, "        for key in structured_input:\n            if structured_input[key] == '':\n                msg = \"Please enter a value for {key}, it cannot be empty.\"\n                raise MissingInput(msg.format(key=key))\n",
+           "", 'D4'),
 ]
 
 BENIGN = [
     Benign('limits-sorted-with-min-max', IG, "        if lower > upper:\n            lower, upper = upper, lower\n",
            "        lower, upper = min(lower, upper), max(lower, upper)\n"),
     Benign('parity-without-abs', IG, "            if abs(lower % 2) != 1:", "            if lower % 2 != 1:"),
+    Benign('parity-test-positive-form', IG, "            if abs(lower % 2) != 1:", "            if lower % 2 == 0:"),
+    Benign('parity-closed-form-exact', IG, "            if abs(lower % 2) != 1:\n                lower += 1", "            lower = lower + (1 - lower % 2)"),
+    Benign('parity-closed-form-floor', IG, "            if abs(lower % 2) != 0:\n                lower += 1", "            lower = 2 * ((lower + 1) // 2)"),
     Benign('explicit-accumulation-loop', IG, "        evals = [eval_summand(n) for n in range(int(lower), int(upper + 1), delta)]\n        result = sum(evals)\n",
            "        result = 0\n        for n in range(int(lower), int(upper + 1), delta):\n            result = result + eval_summand(n)\n"),
     Benign('factorial-test-as-set-intersection', IG, "        if 'fact' in used_funcs or 'factorial' in used_funcs:",
@@ -601,4 +1224,6 @@ BENIGN = [
            "        for key, entered in structured_input.items():\n            if entered == '':"),
     Benign('integer-test-by-modulo', IG, "        if abs(lower) != float('inf') and int(lower) != lower:",
            "        if abs(lower) != float('inf') and lower % 1 != 0:"),
+    Benign('cutoff-as-conditional-expression', IG, "        if 'fact' in used_funcs or 'factorial' in used_funcs:\n            infty_val = self.config['infty_val_fact']\n        else:\n            infty_val = self.config['infty_val']\n",
+           "        infty_val = self.config['infty_val_fact'] if ('fact' in used_funcs or 'factorial' in used_funcs) else self.config['infty_val']\n"),
 ]
